@@ -16,7 +16,7 @@ use stellar_tokens::rwa::compliance::{self as cmm, storage as cml, ComplianceHoo
 use stellar_tokens::rwa::extensions::doc_manager as dml;
 use stellar_tokens::rwa::identity_claims as icl;
 use stellar_tokens::rwa::identity_registry_storage::{
-    self as irl, CountryData, CountryRelation, IdentityType, IndividualCountryRelation,
+    self as irl, CountryData, CountryRelation, IdentityType, IndividualCountryRelation, OrganizationCountryRelation,
 };
 use stellar_tokens::rwa::utils::token_binder as tbl;
 use vh::*;
@@ -245,6 +245,8 @@ static ENV_COUNTER: std::sync::atomic::AtomicU64 = std::sync::atomic::AtomicU64:
 fn new_env() -> Env {
     let k = ENV_COUNTER.fetch_add(1, std::sync::atomic::Ordering::Relaxed);
     let e = Env::default();
+    // (no diagnostic events: they only cost memory - over 1 GB in the capacity histories)
+    let _ = e.host().set_diagnostic_level(Default::default());
     e.cost_estimate().budget().reset_unlimited();
     e.cost_estimate().disable_resource_limits();
     e.ledger().with_mut(|l| {
@@ -267,22 +269,33 @@ fn nlist(xs: &[u64]) -> String { list(&xs.iter().map(|x| nn(*x)).collect::<std::
 fn okv(s: &str) -> String { format!("(Ok {})", s) }
 
 /// small universe of addresses; the model sees an address as its index
-struct Uni { a: std::vec::Vec<Address>, m: std::collections::HashMap<soroban_sdk::xdr::ScAddress, u64> }
+/// (an address outside the universe - never on the unchanged tree - gets an id of its own: 10^9 + k, the
+/// k-th distinct unknown address of the trace, so that two different unknown addresses are never confused)
+struct Uni { a: std::vec::Vec<Address>, m: std::collections::HashMap<soroban_sdk::xdr::ScAddress, u64>,
+             unk: std::cell::RefCell<std::collections::HashMap<soroban_sdk::xdr::ScAddress, u64>> }
 impl Uni {
     fn new(e: &Env, n: usize) -> Uni {
         let a: std::vec::Vec<Address> = (0..n).map(|_| Address::generate(e)).collect();
+        Uni::of(a)
+    }
+    fn of(a: std::vec::Vec<Address>) -> Uni {
         let mut m = std::collections::HashMap::new();
         for (i, x) in a.iter().enumerate() { m.insert(soroban_sdk::xdr::ScAddress::from(x), i as u64); }
-        Uni { a, m }
+        Uni { a, m, unk: Default::default() }
     }
     fn id(&self, x: &Address) -> u64 {
-        *self.m.get(&soroban_sdk::xdr::ScAddress::from(x)).unwrap_or(&999_999_999)
+        let k = soroban_sdk::xdr::ScAddress::from(x);
+        if let Some(i) = self.m.get(&k) { return *i; }
+        let mut u = self.unk.borrow_mut();
+        let n = u.len() as u64;
+        *u.entry(k).or_insert(1_000_000_000 + n)
     }
     fn ids(&self, xs: &Vec<Address>) -> std::vec::Vec<u64> { xs.iter().map(|x| self.id(&x)).collect() }
     fn vec(&self, e: &Env, idx: &[usize]) -> Vec<Address> {
-        let mut v = Vec::new(e);
-        for &i in idx { v.push_back(self.a[i].clone()); }
-        v
+        // (one host object: push_back / from_slice copy the vector once per element - 400 MB for the preload fixture)
+        let vals: std::vec::Vec<Val> = idx.iter().map(|&i| self.a[i].to_val()).collect();
+        let obj = soroban_sdk::EnvBase::vec_new_from_slice(e, &vals).unwrap();
+        soroban_sdk::FromVal::from_val(e, &obj.to_val())
     }
 }
 
@@ -312,8 +325,37 @@ impl Tr {
         out.case(&format!("{}.advance.{}/ok", reg, if n >= 500_000 { "long" } else { "short" }), &format!("Advance {}", n));
         self.ev.push(format!("(Advance {}, (Ok {}), {})", n, dflt, list(&queries)));
     }
+    /// a call of a DIRECTED history: besides the kind label it carries a label of its own for the situation
+    /// it was built to produce (`<situation>/ok|fail`); these labels are hit on every seed (props must_cover)
+    fn sit(&mut self, out: &mut Out, kind: &str, sit: &str, call: &str, ok: Option<String>, queries: std::vec::Vec<String>) {
+        out.label(&format!("{}/{}", sit, if ok.is_some() { "ok" } else { "fail" }));
+        self.push(out, kind, call, ok, queries);
+    }
     fn len(&self) -> usize { self.ev.len() }
 }
+/// only the directed (seed-independent) histories are run: used to compute the must_cover list
+fn directed_only() -> bool { std::env::var("C20_DIRECTED_ONLY").is_ok() }
+
+// ---- printing values IN FULL: every byte of a string / byte string / hash reaches the Coq term ----
+/// numeral of the big-endian number `bytes`: decimal up to 64 bits, hexadecimal beyond (Coq converts long decimal
+/// numerals very slowly)
+fn big_dec(bytes: &[u8]) -> String {
+    let v: std::vec::Vec<u8> = bytes.iter().cloned().skip_while(|x| *x == 0).collect();
+    if v.len() <= 8 { let mut x = 0u64; for bt in &v { x = x * 256 + *bt as u64; } return format!("{}", x); }
+    let mut s = String::from("0x");
+    for bt in &v { s += &format!("{:02x}", bt); }
+    s
+}
+/// a string as a number: the bytes 0x01 || s (injective; Coq's `str_len` recovers the length)
+fn enc(bytes: &[u8]) -> String { let mut v = vec![1u8]; v.extend_from_slice(bytes); big_dec(&v) }
+/// a value outside the shape the harness sends (never on the unchanged tree): 2^(8*(9+len)) + bytes, above every u64
+fn odd(bytes: &[u8]) -> String { let mut v = vec![1u8, 0, 0, 0, 0, 0, 0, 0, 0, 0]; v.extend_from_slice(bytes); big_dec(&v) }
+/// the harness only sends decimal numerals as rule names / claim uris: those print as the number, anything else via `odd`
+fn num_or_odd(s: &[u8]) -> String {
+    match std::str::from_utf8(s).ok().and_then(|t| t.parse::<u64>().ok().filter(|v| format!("{}", v) == t)) { Some(v) => format!("{}", v), None => odd(s) }
+}
+fn sbytes(s: &SString) -> std::vec::Vec<u8> { let n = s.len() as usize; let mut buf = vec![0u8; n]; s.copy_into_slice(&mut buf); buf }
+fn bbytes(x: &Bytes) -> std::vec::Vec<u8> { x.iter().collect() }
 
 // ------------------------------------------------------------------------------------------
 // 1. token binder
@@ -363,14 +405,82 @@ impl<'a> Tb<'a> {
 fn tb_header() -> String { format!("TrBinder {} {} []", tbl::BUCKET_SIZE, tbl::MAX_TOKENS) }
 fn tb_many_call(ts: &[usize]) -> String { format!("TbBindMany {}", nlist(&ts.iter().map(|x| *x as u64).collect::<std::vec::Vec<_>>())) }
 
+/// DIRECTED histories (no random choice): every situation named in the property's quantifier, one label each
+fn directed_binder(out: &mut Out) {
+    let bs = tbl::BUCKET_SIZE as usize;
+    let qs = |t: &Tb, toks: &[usize]| -> std::vec::Vec<String> { let n = t.linked().len() as u32; t.queries(true, toks, &(0..n + 2).collect::<std::vec::Vec<u32>>()) };
+    let first = |t: &Tb| t.linked()[0] as usize;
+    let last = |t: &Tb| { let l = t.linked(); l[l.len() - 1] as usize };
+    // 1. a small set: remove the first / last / only element, re-add after removal, duplicates and absent elements
+    {
+        let t = Tb::new(5); let mut tr = Tr::new(); let all = [0usize, 1, 2, 3, 4];
+        tr.sit(out, "tb.bind_many", "tb.s.batch_one_bucket", &tb_many_call(&[0, 1, 2]), t.bind_many(&[0, 1, 2]), qs(&t, &all));
+        advance(&t.e, 20); tr.advance(out, "tb", 20, "tt", qs(&t, &all));
+        let x = first(&t); tr.sit(out, "tb.unbind", "tb.s.unbind_first", &format!("TbUnbind {}", x), t.unbind(x), qs(&t, &all));
+        let x = last(&t); tr.sit(out, "tb.unbind", "tb.s.unbind_last", &format!("TbUnbind {}", x), t.unbind(x), qs(&t, &all));
+        advance(&t.e, 4_000_000); tr.advance(out, "tb", 4_000_000, "tt", qs(&t, &all));
+        let x = first(&t); tr.sit(out, "tb.unbind", "tb.s.unbind_only", &format!("TbUnbind {}", x), t.unbind(x), qs(&t, &all));
+        tr.sit(out, "tb.unbind", "tb.s.unbind_absent", &format!("TbUnbind {}", x), t.unbind(x), qs(&t, &all));
+        tr.sit(out, "tb.bind", "tb.s.readd_after_removal", &format!("TbBind {}", x), t.bind(x), qs(&t, &all));
+        tr.sit(out, "tb.bind", "tb.s.bind_duplicate", &format!("TbBind {}", x), t.bind(x), qs(&t, &all));
+        tr.sit(out, "tb.bind_many", "tb.s.batch_internal_duplicate", &tb_many_call(&[3, 4, 3]), t.bind_many(&[3, 4, 3]), qs(&t, &all));
+        tr.sit(out, "tb.bind_many", "tb.s.batch_already_bound", &tb_many_call(&[3, x]), t.bind_many(&[3, x]), qs(&t, &all));
+        tr.sit(out, "tb.bind_many", "tb.s.batch_empty", &tb_many_call(&[]), t.bind_many(&[]), qs(&t, &all));
+        advance(&t.e, 600_000); tr.advance(out, "tb", 600_000, "tt", qs(&t, &all));
+        let n = tr.len(); out.trace("binder/directed-small", format!("{} {}", tb_header(), list(&tr.ev)), n);
+    }
+    // 2. a batch touching THREE buckets (partly filled + full + partly filled), then a removal whose replacement
+    //    comes from another bucket
+    {
+        let t = Tb::new(3 * bs + 10); let mut tr = Tr::new();
+        let pr = |t: &Tb| -> std::vec::Vec<String> {
+            let c = t.linked().len();
+            let mut idx: std::vec::Vec<u32> = vec![0, 10, (bs / 2) as u32, (bs - 1) as u32, bs as u32, (2 * bs - 1) as u32, (2 * bs) as u32, c.saturating_sub(1) as u32, c as u32, c as u32 + 1];
+            idx.sort(); idx.dedup();
+            t.queries(true, &[0, 10, bs / 2 - 1, bs / 2, bs, 2 * bs, 2 * bs + bs / 2 - 1, 2 * bs + bs / 2], &idx)
+        };
+        let a: std::vec::Vec<usize> = (0..bs / 2).collect();
+        tr.sit(out, "tb.bind_many", "tb.s.batch_one_bucket", &tb_many_call(&a), t.bind_many(&a), pr(&t));
+        let b3: std::vec::Vec<usize> = (bs / 2..bs / 2 + 2 * bs).collect();
+        tr.sit(out, "tb.bind_many", "tb.s.batch_three_buckets", &tb_many_call(&b3), t.bind_many(&b3), pr(&t));
+        advance(&t.e, 17_281); tr.advance(out, "tb", 17_281, "tt", pr(&t));
+        let x = t.linked()[10] as usize;
+        tr.sit(out, "tb.unbind", "tb.s.unbind_cross_bucket_swap", &format!("TbUnbind {}", x), t.unbind(x), pr(&t));
+        tr.sit(out, "tb.bind", "tb.s.readd_after_removal", &format!("TbBind {}", x), t.bind(x), pr(&t));
+        let n = tr.len(); out.trace("binder/directed-three-buckets", format!("{} {}", tb_header(), list(&tr.ev)), n);
+    }
+    // 3. a batch crossing a boundary from a partly filled bucket; a removal that empties the last bucket
+    {
+        let t = Tb::new(2 * bs + 20); let mut tr = Tr::new();
+        let pr = |t: &Tb| -> std::vec::Vec<String> {
+            let c = t.linked().len();
+            let mut idx: std::vec::Vec<u32> = vec![0, 5, (bs - 6) as u32, (bs - 5) as u32, (bs - 1) as u32, bs as u32, (bs + 4) as u32, (bs + 5) as u32, c.saturating_sub(1) as u32, c as u32];
+            idx.sort(); idx.dedup();
+            t.queries(true, &[0, 5, bs - 6, bs - 5, bs + 4, bs + 5, 2 * bs + 10], &idx)
+        };
+        let a: std::vec::Vec<usize> = (0..bs - 5).collect();
+        tr.sit(out, "tb.bind_many", "tb.s.batch_one_bucket", &tb_many_call(&a), t.bind_many(&a), pr(&t));
+        let b2: std::vec::Vec<usize> = (bs - 5..bs + 5).collect();
+        tr.sit(out, "tb.bind_many", "tb.s.batch_cross_from_partial", &tb_many_call(&b2), t.bind_many(&b2), pr(&t));
+        for k in 0..4 { let x = t.linked()[5] as usize; tr.sit(out, "tb.unbind", "tb.s.unbind_cross_bucket_swap", &format!("TbUnbind {}", x), t.unbind(x), pr(&t)); let _ = k; }
+        advance(&t.e, 100); tr.advance(out, "tb", 100, "tt", pr(&t));
+        let x = t.linked()[5] as usize;
+        tr.sit(out, "tb.unbind", "tb.s.unbind_empties_last_bucket", &format!("TbUnbind {}", x), t.unbind(x), pr(&t));
+        tr.sit(out, "tb.bind", "tb.s.bind_reopens_bucket", &format!("TbBind {}", 2 * bs + 10), t.bind(2 * bs + 10), pr(&t));
+        let n = tr.len(); out.trace("binder/directed-boundary", format!("{} {}", tb_header(), list(&tr.ev)), n);
+    }
+}
+
 fn run_binder(out: &mut Out, rng: &mut Rng) {
     let bs = tbl::BUCKET_SIZE as usize;
     let maxt = tbl::MAX_TOKENS as usize;
     let thorough = out.cfg.thorough;
     let scale = out.cfg.scale as usize;
+    let donly = directed_only();
+    directed_binder(out);
 
     // A. small universe, every query after every call
-    let na = if thorough { 400 } else { 40 } * scale;
+    let na = if donly { 0 } else if thorough { 400 } else { 40 } * scale;
     for _ in 0..na {
         let nu = 3 + rng.below(6) as usize;
         let t = Tb::new(nu);
@@ -418,7 +528,7 @@ fn run_binder(out: &mut Out, rng: &mut Rng) {
     }
 
     // A'. thorough tier: EVERY sequence of 5 bind / unbind operations over 3 tokens
-    if thorough {
+    if thorough && !donly {
         for seq in all_seqs(6, 5) {
             let t = Tb::new(3);
             let mut tr = Tr::new();
@@ -434,7 +544,7 @@ fn run_binder(out: &mut Out, rng: &mut Rng) {
     }
 
     // B. histories around the bucket boundaries (BUCKET_SIZE, 2*BUCKET_SIZE)
-    let nb = if thorough { 120 } else { 14 } * scale;
+    let nb = if donly { 0 } else if thorough { 120 } else { 14 } * scale;
     for it in 0..nb {
         let nu = 2 * bs + 40;
         let t = Tb::new(nu);
@@ -523,26 +633,29 @@ fn run_binder(out: &mut Out, rng: &mut Rng) {
         let light = |t: &Tb, toks: &[usize], cnt: usize| -> std::vec::Vec<String> {
             t.queries(false, toks, &[0, (cnt as u32).saturating_sub(1), cnt as u32, (maxt - 1) as u32, maxt as u32])
         };
-        // fill up to MAX - BUCKET_SIZE: thorough tier through genuine batches, quick tier by the fixture
+        // fill up to MAX - tail: thorough tier through genuine batches, quick tier by the fixture.  (One ACCEPTED batch
+        // at this size costs ~0.8 GB of host objects whatever its length: bind_tokens builds a Map of all bound tokens
+        // by 10^4 copying insertions; the quick tier therefore does exactly one.)
+        let tail = if thorough { bs } else { 10 };
         if thorough {
-            while next < maxt - bs {
-                let k = (maxt - bs - next).min(2 * bs);
+            while next < maxt - tail {
+                let k = (maxt - tail - next).min(2 * bs);
                 let ts: std::vec::Vec<usize> = (next..next + k).collect(); next += k;
                 let r = t.bind_many(&ts);
                 tr.push(out, "tb.bind_many", &tb_many_call(&ts), r, light(&t, &[ts[0]], next));
             }
         } else {
-            let ts: std::vec::Vec<usize> = (0..maxt - bs).collect(); next = maxt - bs;
+            let ts: std::vec::Vec<usize> = (0..maxt - tail).collect(); next = maxt - tail;
             if t.preload(&ts).is_none() { panic!("binder preload fixture failed"); }
             header = format!("TrBinder {} {} {}", tbl::BUCKET_SIZE, tbl::MAX_TOKENS, nlist(&ts.iter().map(|x| *x as u64).collect::<std::vec::Vec<_>>()));
         }
         advance(&t.e, 4_000_000);
         tr.advance(out, "tb", 4_000_000, "tt", light(&t, &[0, next - 1], next));
         // a batch that would end one past the limit is refused, the one ending at the limit accepted
-        let ts: std::vec::Vec<usize> = (next..next + bs + 1).collect();
+        let ts: std::vec::Vec<usize> = (next..next + tail + 1).collect();
         let r = t.bind_many(&ts);
         tr.push(out, "tb.bind_many.limit", &tb_many_call(&ts), r, light(&t, &[next], next));
-        let ts: std::vec::Vec<usize> = (next..next + bs).collect(); next += bs;
+        let ts: std::vec::Vec<usize> = (next..next + tail).collect(); next += tail;
         let r = t.bind_many(&ts);
         tr.push(out, "tb.bind_many.limit", &tb_many_call(&ts), r, light(&t, &[next - 1], next));
         // at the limit
@@ -581,22 +694,23 @@ fn run_binder(out: &mut Out, rng: &mut Rng) {
 
 fn unit_ok<E, F>(r: Result<Result<(), E>, F>) -> Option<String> { match r { Ok(Ok(())) => Some("tt".into()), _ => None } }
 fn bn32(e: &Env, id: u64) -> BytesN<32> { let mut a = [0u8; 32]; a[24..32].copy_from_slice(&id.to_be_bytes()); BytesN::from_array(e, &a) }
-fn bn32_id(b: &BytesN<32>) -> u64 { let a = b.to_array(); let mut x = [0u8; 8]; x.copy_from_slice(&a[24..32]); u64::from_be_bytes(x) }
-fn sstr(s: &SString) -> std::string::String { let n = s.len() as usize; let mut buf = vec![0u8; n]; s.copy_into_slice(&mut buf); std::string::String::from_utf8(buf).unwrap() }
+/// the full 256-bit value (equal to `id` for the names / hashes the harness sends)
+fn bn32_id(b: &BytesN<32>) -> String { big_dec(&b.to_array()) }
 
 // ------------------------------------------------------------------------------------------
 // 2. document manager
 // ------------------------------------------------------------------------------------------
 
-/// uri (k, len): the digit k repeated len times (k in 1..=9; len 0 is printed as (0, 0))
-fn uri_of(e: &Env, k: u64, len: u64) -> SString {
-    let t: std::string::String = std::iter::repeat(char::from(b'0' + k as u8)).take(len as usize).collect();
-    SString::from_str(e, &t)
+/// uri (k, len): `len` characters whose content depends on k and on the position; printed IN FULL
+/// (the number 0x01 || bytes) together with its length
+fn uri_string(k: u64, len: u64) -> std::string::String {
+    (0..len).map(|i| char::from(b'a' + ((k * 7 + i * (k + 1)) % 26) as u8)).collect()
 }
+fn uri_of(e: &Env, k: u64, len: u64) -> SString { SString::from_str(e, &uri_string(k, len)) }
+fn uri_coq(k: u64, len: u64) -> String { format!("{} {}", enc(uri_string(k, len).as_bytes()), len) }
 fn doc_coq(d: &dml::Document) -> String {
-    let u = sstr(&d.uri);
-    let k = u.bytes().next().map(|c| (c - b'0') as u64).unwrap_or(0);
-    format!("(Build_doc {} {} {} {})", k, u.len(), bn32_id(&d.document_hash), d.timestamp)
+    let u = sbytes(&d.uri);
+    format!("(Build_doc {} {} {} {})", enc(&u), u.len(), bn32_id(&d.document_hash), d.timestamp)
 }
 fn entry_coq(x: &(BytesN<32>, dml::Document)) -> String { format!("({}, {})", bn32_id(&x.0), doc_coq(&x.1)) }
 
@@ -610,13 +724,14 @@ impl<'a> Dm<'a> {
     }
     fn count(&self) -> u32 { tryv!(self.c.try_count()).unwrap_or(0) }
     /// returns (call text, outcome)
-    fn set(&mut self, name: u64, k: u64, len: u64, hash: u64, rng: &mut Rng) -> (String, Option<String>) {
-        self.ts += rng.below(3);
+    fn set(&mut self, name: u64, k: u64, len: u64, hash: u64, rng: &mut Rng) -> (String, Option<String>) { let d = rng.below(3); self.set_d(name, k, len, hash, d) }
+    /// (dts: seconds passing before the call)
+    fn set_d(&mut self, name: u64, k: u64, len: u64, hash: u64, dts: u64) -> (String, Option<String>) {
+        self.ts += dts;
         let ts = self.ts;
         self.e.ledger().with_mut(|l| l.timestamp = ts);
-        let (k, len) = if len == 0 { (0, 0) } else { (k, len) };
         let r = unit_ok(self.c.try_set_doc(&bn32(&self.e, name), &uri_of(&self.e, k, len), &bn32(&self.e, hash)));
-        (format!("DmSet {} (Build_doc {} {} {} {})", name, k, len, hash, ts), r)
+        (format!("DmSet {} (Build_doc {} {} {})", name, uri_coq(k, len), hash, ts), r)
     }
     fn remove(&self, name: u64) -> (String, Option<String>) {
         (format!("DmRemove {}", name), unit_ok(self.c.try_remove_doc(&bn32(&self.e, name))))
@@ -641,15 +756,63 @@ impl<'a> Dm<'a> {
 }
 fn dm_header() -> String { format!("TrDocs {} {} {} []", dml::BUCKET_SIZE, dml::MAX_DOCUMENTS, dml::MAX_URI_LEN) }
 
+fn directed_docs(out: &mut Out) {
+    let bs = dml::BUCKET_SIZE as u64;
+    let maxu = dml::MAX_URI_LEN as u64;
+    let order = |d: &Dm| -> std::vec::Vec<u64> {
+        (0..d.count()).filter_map(|i| d.c.try_by_index(&i).ok().and_then(|r| r.ok()).map(|x| { let a = x.0.to_array(); let mut b8 = [0u8; 8]; b8.copy_from_slice(&a[24..32]); u64::from_be_bytes(b8) })).collect()
+    };
+    // 1. small map
+    {
+        let mut d = Dm::new(); let mut tr = Tr::new(); let names = [0u64, 1, 2, 3];
+        let qs = |d: &Dm| d.queries(&names, &(0..d.count() + 2).collect::<std::vec::Vec<u32>>(), &[0, 1]);
+        for n in 0..3u64 { let (c, r) = d.set_d(n, 1 + n, 2 + n, n, 1); tr.sit(out, "dm.set", "dm.s.set_new", &c, r, qs(&d)); }
+        advance(&d.e, 20); tr.advance(out, "dm", 20, "tt", qs(&d));
+        let (c, r) = d.set_d(1, 7, 5, 9, 2); tr.sit(out, "dm.set", "dm.s.update_in_place", &c, r, qs(&d));
+        let x = order(&d)[0]; let (c, r) = d.remove(x); tr.sit(out, "dm.remove", "dm.s.remove_first", &c, r, qs(&d));
+        let o = order(&d); let x = o[o.len() - 1]; let (c, r) = d.remove(x); tr.sit(out, "dm.remove", "dm.s.remove_last", &c, r, qs(&d));
+        advance(&d.e, 4_000_000); tr.advance(out, "dm", 4_000_000, "tt", qs(&d));
+        let x = order(&d)[0]; let (c, r) = d.remove(x); tr.sit(out, "dm.remove", "dm.s.remove_only", &c, r, qs(&d));
+        let (c, r) = d.remove(x); tr.sit(out, "dm.remove", "dm.s.remove_absent", &c, r, qs(&d));
+        let (c, r) = d.set_d(x, 3, 4, 5, 1); tr.sit(out, "dm.set", "dm.s.readd_after_removal", &c, r, qs(&d));
+        let (c, r) = d.set_d(3, 2, maxu, 1, 0); tr.sit(out, "dm.set.uri_limit", "dm.s.uri_at_limit", &c, r, qs(&d));
+        let (c, r) = d.set_d(2, 2, maxu + 1, 1, 0); tr.sit(out, "dm.set.uri_limit", "dm.s.uri_over_limit", &c, r, qs(&d));
+        let (c, r) = d.set_d(x, 2, maxu + 1, 1, 0); tr.sit(out, "dm.set.uri_limit", "dm.s.update_uri_over_limit", &c, r, qs(&d));
+        let (c, r) = d.set_d(2, 2, 0, 1, 1); tr.sit(out, "dm.set", "dm.s.uri_empty", &c, r, qs(&d));
+        advance(&d.e, 600_000); tr.advance(out, "dm", 600_000, "tt", qs(&d));
+        let n = tr.len(); out.trace("docs/directed-small", format!("{} {}", dm_header(), list(&tr.ev)), n);
+    }
+    // 2. across the bucket boundary: the removed entry's replacement comes from the next bucket; the last bucket
+    //    is emptied and reopened; every bucket is read in every event
+    {
+        let mut d = Dm::new(); let mut tr = Tr::new();
+        let pr = |d: &Dm, names: &[u64]| { let c = d.count();
+            let mut idx: std::vec::Vec<u32> = vec![0, 3, (bs - 1) as u32, bs as u32, (bs + 1) as u32, c.saturating_sub(1), c, c + 1]; idx.sort(); idx.dedup();
+            d.queries(names, &idx, &[0, 1, 2]) };
+        for n in 0..bs + 2 { let (c, r) = d.set_d(n, 1 + n % 9, 1 + n % 4, n % 7, n % 2);
+            let q = if n + 3 >= bs { pr(&d, &[0, n]) } else { d.queries(&[n], &[n as u32], &[]) };
+            tr.sit(out, "dm.set", if n == bs { "dm.s.set_opens_bucket" } else { "dm.s.set_new" }, &c, r, q); }
+        advance(&d.e, 17_281); tr.advance(out, "dm", 17_281, "tt", pr(&d, &[0, 3, bs - 1, bs, bs + 1]));
+        let x = order(&d)[3]; let (c, r) = d.remove(x); tr.sit(out, "dm.remove", "dm.s.remove_cross_bucket_swap", &c, r, pr(&d, &[x, bs, bs + 1]));
+        let x = order(&d)[0]; let (c, r) = d.remove(x); tr.sit(out, "dm.remove", "dm.s.remove_empties_last_bucket", &c, r, pr(&d, &[x, bs, bs + 1]));
+        let (c, r) = d.set_d(x, 4, 3, 2, 1); tr.sit(out, "dm.set", "dm.s.set_reopens_bucket", &c, r, pr(&d, &[x, bs]));
+        let (c, r) = d.set_d(bs, 5, 6, 3, 1); tr.sit(out, "dm.set", "dm.s.update_in_place", &c, r, pr(&d, &[x, bs]));
+        advance(&d.e, 100); tr.advance(out, "dm", 100, "tt", pr(&d, &[x, bs]));
+        let n = tr.len(); out.trace("docs/directed-boundary", format!("{} {}", dm_header(), list(&tr.ev)), n);
+    }
+}
+
 fn run_docs(out: &mut Out, rng: &mut Rng) {
     let bs = dml::BUCKET_SIZE as u64;
     let maxd = dml::MAX_DOCUMENTS as u64;
     let maxu = dml::MAX_URI_LEN as u64;
     let thorough = out.cfg.thorough;
     let scale = out.cfg.scale as usize;
+    let donly = directed_only();
+    directed_docs(out);
 
     // A. small universe, every query after every call
-    let na = if thorough { 300 } else { 30 } * scale;
+    let na = if donly { 0 } else if thorough { 300 } else { 30 } * scale;
     for _ in 0..na {
         let nu = 2 + rng.below(5);
         let mut d = Dm::new();
@@ -682,7 +845,7 @@ fn run_docs(out: &mut Out, rng: &mut Rng) {
     }
 
     // A'. thorough tier: EVERY sequence of 5 set / remove operations over 3 names
-    if thorough {
+    if thorough && !donly {
         for seq in all_seqs(6, 5) {
             let mut d = Dm::new();
             let mut tr = Tr::new();
@@ -698,7 +861,7 @@ fn run_docs(out: &mut Out, rng: &mut Rng) {
     }
 
     // B. around the bucket boundaries
-    let nb = if thorough { 100 } else { 12 } * scale;
+    let nb = if donly { 0 } else if thorough { 100 } else { 12 } * scale;
     for it in 0..nb {
         let mut d = Dm::new();
         let mut tr = Tr::new();
@@ -760,7 +923,7 @@ fn run_docs(out: &mut Out, rng: &mut Rng) {
         } else {
             let n0 = maxd - 2;
             if unit_ok(d.c.try_preload(&(n0 as u32), &d.ts)).is_none() { panic!("docs preload fixture failed"); }
-            let ents: std::vec::Vec<String> = (0..n0).map(|i| format!("({}, Build_doc {} {} {} {})", i, 1 + i % 9, 1 + i % 3, i % 7, d.ts)).collect();
+            let ents: std::vec::Vec<String> = (0..n0).map(|i| format!("({}, Build_doc {} {} {})", i, uri_coq(1 + i % 9, 1 + i % 3), i % 7, d.ts)).collect();
             header = format!("TrDocs {} {} {} {}", dml::BUCKET_SIZE, dml::MAX_DOCUMENTS, dml::MAX_URI_LEN, list(&ents));
             for n in n0..maxd {
                 let (call, r) = d.set(n, 1 + n % 9, 1 + n % 3, n % 7, rng);
@@ -769,7 +932,9 @@ fn run_docs(out: &mut Out, rng: &mut Rng) {
         }
         let lim = |d: &Dm, names: &[u64]| d.queries(names, &[0, (maxd - 1) as u32, maxd as u32], &[(maxd / bs - 1) as u32, (maxd / bs) as u32]);
         advance(&d.e, 4_000_000);
-        tr.advance(out, "dm", 4_000_000, "tt", lim(&d, &[0, maxd - 1]));
+        // (once: EVERY bucket is read, so that the paging is checked for completeness at MAX_DOCUMENTS)
+        let allb: std::vec::Vec<u32> = (0..=(maxd / bs) as u32).collect();
+        tr.advance(out, "dm", 4_000_000, "tt", d.queries(&[0, maxd - 1], &[0, (maxd - 1) as u32, maxd as u32], &allb));
         let (call, r) = d.set(maxd, 3, 2, 1, rng); tr.push(out, "dm.set.limit", &call, r, lim(&d, &[maxd]));
         let (call, r) = d.set(7, 4, 2, 5, rng); tr.push(out, "dm.set.limit", &call, r, lim(&d, &[7]));   // update at the limit
         let victim = rng.below(maxd);
@@ -822,13 +987,55 @@ impl<'a> Ct<'a> {
 }
 fn cti_header() -> String { format!("TrCTI {} {}", ctim::MAX_CLAIM_TOPICS, ctim::MAX_ISSUERS) }
 
+fn directed_cti(out: &mut Out) {
+    let t = Ct::new(4); let mut tr = Tr::new();
+    let topics = [1u64, 2, 3, 4]; let issuers = [0usize, 1, 2, 3];
+    let qs = |t: &Ct| t.queries(&topics, &issuers, true);
+    let cur_t = |t: &Ct| -> std::vec::Vec<u64> { tryv!(t.c.try_get_claim_topics()).map(|v| v.iter().map(|x| x as u64).collect()).unwrap_or_default() };
+    let cur_i = |t: &Ct| -> std::vec::Vec<u64> { tryv!(t.c.try_get_trusted_issuers()).map(|v| t.u.ids(&v)).unwrap_or_default() };
+    let add_t = |t: &Ct, x: u64| (format!("CtAddTopic {}", x), unit_ok(t.c.try_add_claim_topic(&(x as u32))));
+    let rem_t = |t: &Ct, x: u64| (format!("CtRemoveTopic {}", x), unit_ok(t.c.try_remove_claim_topic(&(x as u32))));
+    let add_i = |t: &Ct, i: usize, ts: &[u64]| (format!("CtAddIssuer {} {}", i, nlist(ts)), unit_ok(t.c.try_add_trusted_issuer(&t.u.a[i], &t.u32s(ts))));
+    let upd_i = |t: &Ct, i: usize, ts: &[u64]| (format!("CtUpdateIssuer {} {}", i, nlist(ts)), unit_ok(t.c.try_update_issuer_topics(&t.u.a[i], &t.u32s(ts))));
+    let rem_i = |t: &Ct, i: usize| (format!("CtRemoveIssuer {}", i), unit_ok(t.c.try_remove_trusted_issuer(&t.u.a[i])));
+    for x in 1..=3u64 { let (c, r) = add_t(&t, x); tr.sit(out, "cti.add_topic", "cti.s.add_topic", &c, r, qs(&t)); }
+    let (c, r) = add_t(&t, 2); tr.sit(out, "cti.add_topic", "cti.s.add_topic_duplicate", &c, r, qs(&t));
+    let (c, r) = add_i(&t, 0, &[3, 1]); tr.sit(out, "cti.add_issuer", "cti.s.add_issuer_permuted_topics", &c, r, qs(&t));
+    let (c, r) = add_i(&t, 0, &[1]); tr.sit(out, "cti.add_issuer", "cti.s.add_issuer_duplicate", &c, r, qs(&t));
+    let (c, r) = add_i(&t, 1, &[]); tr.sit(out, "cti.add_issuer", "cti.s.add_issuer_no_topics", &c, r, qs(&t));
+    let (c, r) = add_i(&t, 1, &[1, 1]); tr.sit(out, "cti.add_issuer", "cti.s.add_issuer_repeated_topic", &c, r, qs(&t));
+    let (c, r) = add_i(&t, 1, &[1, 4]); tr.sit(out, "cti.add_issuer", "cti.s.add_issuer_unknown_topic", &c, r, qs(&t));
+    let (c, r) = add_i(&t, 1, &[1, 2]); tr.sit(out, "cti.add_issuer", "cti.s.add_issuer", &c, r, qs(&t));
+    let (c, r) = add_i(&t, 2, &[2]); tr.sit(out, "cti.add_issuer", "cti.s.add_issuer", &c, r, qs(&t));
+    advance(&t.e, 100); tr.advance(out, "cti", 100, "tt", qs(&t));
+    let (c, r) = upd_i(&t, 1, &[3, 2]); tr.sit(out, "cti.update_issuer", "cti.s.update_adds_and_removes", &c, r, qs(&t));
+    let (c, r) = upd_i(&t, 3, &[1]); tr.sit(out, "cti.update_issuer", "cti.s.update_absent_issuer", &c, r, qs(&t));
+    let (c, r) = upd_i(&t, 1, &[]); tr.sit(out, "cti.update_issuer", "cti.s.update_no_topics", &c, r, qs(&t));
+    let x = cur_t(&t)[0]; let (c, r) = rem_t(&t, x); tr.sit(out, "cti.remove_topic", "cti.s.remove_topic_first_held_by_issuer", &c, r, qs(&t));
+    let l = cur_t(&t); let x = l[l.len() - 1]; let (c, r) = rem_t(&t, x); tr.sit(out, "cti.remove_topic", "cti.s.remove_topic_last_leaves_issuer_without_topics", &c, r, qs(&t));
+    advance(&t.e, 4_000_000); tr.advance(out, "cti", 4_000_000, "tt", qs(&t));
+    let (c, r) = rem_t(&t, x); tr.sit(out, "cti.remove_topic", "cti.s.remove_topic_absent", &c, r, qs(&t));
+    let (c, r) = add_t(&t, x); tr.sit(out, "cti.add_topic", "cti.s.readd_topic_after_removal", &c, r, qs(&t));
+    let i = cur_i(&t)[0] as usize; let (c, r) = rem_i(&t, i); tr.sit(out, "cti.remove_issuer", "cti.s.remove_issuer_first", &c, r, qs(&t));
+    let l = cur_i(&t); let i = l[l.len() - 1] as usize; let (c, r) = rem_i(&t, i); tr.sit(out, "cti.remove_issuer", "cti.s.remove_issuer_last", &c, r, qs(&t));
+    let i = cur_i(&t)[0] as usize; let (c, r) = rem_i(&t, i); tr.sit(out, "cti.remove_issuer", "cti.s.remove_issuer_only", &c, r, qs(&t));
+    let (c, r) = rem_i(&t, i); tr.sit(out, "cti.remove_issuer", "cti.s.remove_issuer_absent", &c, r, qs(&t));
+    let (c, r) = add_i(&t, i, &[2]); tr.sit(out, "cti.add_issuer", "cti.s.readd_issuer_after_removal", &c, r, qs(&t));
+    let (c, r) = rem_t(&t, x); tr.sit(out, "cti.remove_topic", "cti.s.remove_topic", &c, r, qs(&t));
+    let x = cur_t(&t)[0]; let (c, r) = rem_t(&t, x); tr.sit(out, "cti.remove_topic", "cti.s.remove_topic_only", &c, r, qs(&t));
+    advance(&t.e, 20); tr.advance(out, "cti", 20, "tt", qs(&t));
+    let n = tr.len(); out.trace("cti/directed", format!("{} {}", cti_header(), list(&tr.ev)), n);
+}
+
 fn run_cti(out: &mut Out, rng: &mut Rng) {
     let maxt = ctim::MAX_CLAIM_TOPICS as u64;
     let maxi = ctim::MAX_ISSUERS as usize;
     let thorough = out.cfg.thorough;
     let scale = out.cfg.scale as usize;
+    let donly = directed_only();
+    directed_cti(out);
     // A. small universes
-    let na = if thorough { 400 } else { 45 } * scale;
+    let na = if donly { 0 } else if thorough { 400 } else { 45 } * scale;
     for _ in 0..na {
         let nt = 2 + rng.below(5); let ni = 2 + rng.below(3) as usize;
         let t = Ct::new(ni);
@@ -926,7 +1133,13 @@ fn run_cti(out: &mut Out, rng: &mut Rng) {
 // 4. claim-issuer signing keys
 // ------------------------------------------------------------------------------------------
 fn pk_bytes(e: &Env, pk: u64) -> Bytes { if pk == 0 { Bytes::new(e) } else { Bytes::from_array(e, &pk.to_be_bytes()) } }
-fn pk_id(bts: &Bytes) -> u64 { if bts.is_empty() { 0 } else { let mut a = [0u8; 8]; bts.copy_into_slice(&mut a); u64::from_be_bytes(a) } }
+/// the harness sends the empty byte string (0) or 8 bytes (their non-zero big-endian value); any other byte string is printed via `odd`
+fn pk_id(bts: &Bytes) -> String {
+    let v = bbytes(bts);
+    if v.is_empty() { return "0".into(); }
+    if v.len() == 8 { let mut a = [0u8; 8]; a.copy_from_slice(&v); let x = u64::from_be_bytes(a); if x != 0 { return format!("{}", x); } }
+    odd(&v)
+}
 
 struct Ck<'a> { e: Env, c: KeysCClient<'a>, regs: std::vec::Vec<Address>, u: Uni }
 impl<'a> Ck<'a> {
@@ -935,9 +1148,7 @@ impl<'a> Ck<'a> {
         let id = e.register(KeysC, ());
         let c = KeysCClient::new(&e, &id);
         let regs: std::vec::Vec<Address> = (0..nreg).map(|_| e.register(RegistryMock, ())).collect();
-        let mut m = std::collections::HashMap::new();
-        for (i, x) in regs.iter().enumerate() { m.insert(soroban_sdk::xdr::ScAddress::from(x), i as u64); }
-        let u = Uni { a: regs.clone(), m };
+        let u = Uni::of(regs.clone());
         Ck { e, c, regs, u }
     }
     /// mode: 0 = registry says true, 1 = false, 2 = traps
@@ -973,13 +1184,60 @@ impl<'a> Ck<'a> {
 }
 fn ck_header() -> String { format!("TrKeys {} {}", cil::MAX_KEYS_PER_TOPIC, cil::MAX_REGISTRIES_PER_KEY) }
 
+fn directed_keys(out: &mut Out) {
+    let maxr = cil::MAX_REGISTRIES_PER_KEY as u64;
+    // 1. situations
+    {
+        let k = Ck::new(3); let mut tr = Tr::new();
+        let topics = [1u64, 2, 3]; let keys = [(0u64, 101u64), (7, 101), (7, 102), (8, 101)]; let regs = [0usize, 1, 2];
+        let qs = |k: &Ck| k.queries(&topics, &keys, &regs, true);
+        let (c, r) = k.allow(7, 0, 101, 1, 0); tr.sit(out, "ck.allow", "ck.s.allow_first", &c, r, qs(&k));
+        let (c, r) = k.allow(7, 0, 101, 1, 0); tr.sit(out, "ck.allow", "ck.s.allow_duplicate", &c, r, qs(&k));
+        let (c, r) = k.allow(7, 1, 101, 1, 0); tr.sit(out, "ck.allow", "ck.s.allow_second_registry", &c, r, qs(&k));
+        let (c, r) = k.allow(7, 0, 101, 2, 0); tr.sit(out, "ck.allow", "ck.s.allow_second_topic", &c, r, qs(&k));
+        let (c, r) = k.allow(7, 0, 102, 1, 0); tr.sit(out, "ck.allow", "ck.s.allow_other_scheme", &c, r, qs(&k));
+        let (c, r) = k.allow(8, 0, 101, 1, 1); tr.sit(out, "ck.allow", "ck.s.allow_registry_says_no", &c, r, qs(&k));
+        let (c, r) = k.allow(8, 0, 101, 1, 2); tr.sit(out, "ck.allow", "ck.s.allow_registry_traps", &c, r, qs(&k));
+        let (c, r) = k.allow(0, 0, 101, 1, 0); tr.sit(out, "ck.allow", "ck.s.allow_empty_key", &c, r, qs(&k));
+        let (c, r) = k.allow(8, 2, 101, 1, 0); tr.sit(out, "ck.allow", "ck.s.allow_second_key_of_topic", &c, r, qs(&k));
+        advance(&k.e, 100); tr.advance(out, "ck", 100, "tt", qs(&k));
+        let (c, r) = k.remove(7, 0, 101, 1); tr.sit(out, "ck.remove", "ck.s.remove_first_pair", &c, r, qs(&k));
+        let (c, r) = k.remove(7, 0, 101, 1); tr.sit(out, "ck.remove", "ck.s.remove_absent", &c, r, qs(&k));
+        let (c, r) = k.allow(7, 0, 101, 1, 0); tr.sit(out, "ck.allow", "ck.s.readd_after_removal", &c, r, qs(&k));
+        let (c, r) = k.remove(7, 0, 101, 1); tr.sit(out, "ck.remove", "ck.s.remove_last_pair", &c, r, qs(&k));
+        advance(&k.e, 4_000_000); tr.advance(out, "ck", 4_000_000, "tt", qs(&k));
+        let (c, r) = k.remove(8, 2, 101, 1); tr.sit(out, "ck.remove", "ck.s.remove_only_pair_of_key", &c, r, qs(&k));
+        let (c, r) = k.remove(7, 1, 101, 1); tr.sit(out, "ck.remove", "ck.s.remove_last_key_of_topic", &c, r, qs(&k));
+        let (c, r) = k.remove(7, 1, 101, 2); tr.sit(out, "ck.remove", "ck.s.remove_other_registry_absent", &c, r, qs(&k));
+        let (c, r) = k.remove(7, 0, 101, 2); tr.sit(out, "ck.remove", "ck.s.remove", &c, r, qs(&k));
+        let (c, r) = k.remove(7, 0, 102, 1); tr.sit(out, "ck.remove", "ck.s.remove_only_pair_of_key", &c, r, qs(&k));
+        advance(&k.e, 20); tr.advance(out, "ck", 20, "tt", qs(&k));
+        let n = tr.len(); out.trace("keys/directed", format!("{} {}", ck_header(), list(&tr.ev)), n);
+    }
+    // 2. the interpretation of MAX_REGISTRIES_PER_KEY: ONE registry under MAX topics exhausts the limit - a second
+    //    registry is then refused and get_registries lists the one registry MAX times
+    {
+        let k = Ck::new(2); let mut tr = Tr::new();
+        let key = (7u64, 101u64);
+        for t in 1..=maxr { let (c, r) = k.allow(7, 0, 101, t, 0); tr.sit(out, "ck.allow", "ck.s.one_registry_many_topics", &c, r, k.queries(&[t], &[key], &[0, 1], true)); }
+        let (c, r) = k.allow(7, 1, 101, 1, 0); tr.sit(out, "ck.allow.reg_limit", "ck.s.second_registry_at_pair_limit", &c, r, k.queries(&[1], &[key], &[0, 1], true));
+        let (c, r) = k.allow(7, 0, 101, maxr + 1, 0); tr.sit(out, "ck.allow.reg_limit", "ck.s.same_registry_at_pair_limit", &c, r, k.queries(&[maxr + 1], &[key], &[0, 1], true));
+        advance(&k.e, 600_000); tr.advance(out, "ck", 600_000, "tt", k.queries(&[1, maxr], &[key], &[0, 1], true));
+        let (c, r) = k.remove(7, 0, 101, 3); tr.sit(out, "ck.remove", "ck.s.remove", &c, r, k.queries(&[3], &[key], &[0, 1], true));
+        let (c, r) = k.allow(7, 1, 101, 1, 0); tr.sit(out, "ck.allow.reg_limit", "ck.s.second_registry_below_pair_limit", &c, r, k.queries(&[1], &[key], &[0, 1], true));
+        let n = tr.len(); out.trace("keys/directed-one-registry-many-topics", format!("{} {}", ck_header(), list(&tr.ev)), n);
+    }
+}
+
 fn run_keys(out: &mut Out, rng: &mut Rng) {
     let maxk = cil::MAX_KEYS_PER_TOPIC as u64;
     let maxr = cil::MAX_REGISTRIES_PER_KEY as u64;
     let thorough = out.cfg.thorough;
     let scale = out.cfg.scale as usize;
+    let donly = directed_only();
+    directed_keys(out);
     // A. small universes
-    let na = if thorough { 400 } else { 45 } * scale;
+    let na = if donly { 0 } else if thorough { 400 } else { 45 } * scale;
     for _ in 0..na {
         let npk = 1 + rng.below(3); let nt = 1 + rng.below(3); let nr = 1 + rng.below(3) as usize;
         let schemes = [101u64, 102];
@@ -1072,25 +1330,56 @@ fn run_keys(out: &mut Out, rng: &mut Rng) {
 // 5. identity registry storage
 // ------------------------------------------------------------------------------------------
 
-/// country data descriptor: (code, None | Some(entries, len))
+/// country data descriptor: (code, None | Some(entries, len)); code = tag * 2^32 + country where the tag selects
+/// the relation variant (0..3 individual: residence, citizenship, source of funds, tax residency; 5..8 organization:
+/// incorporation, operating jurisdiction, tax jurisdiction, source of funds).  Metadata: `entries` keys k0, k1, ..
+/// each with a value of `len` characters (content depends on the key and the position); printed IN FULL as the
+/// list of (key, value) in the order of the host map.
 type Cd = (u64, Option<(u64, u64)>);
+const TAG: u64 = 1 << 32;
 fn cd_make(e: &Env, d: &Cd) -> CountryData {
     let metadata = d.1.map(|(n, len)| {
         let mut m: Map<Symbol, SString> = Map::new(e);
-        let v: std::string::String = std::iter::repeat('x').take(len as usize).collect();
-        for i in 0..n { m.set(Symbol::new(e, &format!("k{}", i)), SString::from_str(e, &v)); }
+        for i in 0..n {
+            let v: std::string::String = (0..len).map(|j| char::from(b'a' + ((i * 5 + j * (i + 1) + d.0) % 26) as u8)).collect();
+            m.set(Symbol::new(e, &format!("k{}", i)), SString::from_str(e, &v));
+        }
         m
     });
-    CountryData { country: CountryRelation::Individual(IndividualCountryRelation::Residence(d.0 as u32)), metadata }
+    let c = (d.0 % TAG) as u32;
+    let country = match d.0 / TAG {
+        0 => CountryRelation::Individual(IndividualCountryRelation::Residence(c)),
+        1 => CountryRelation::Individual(IndividualCountryRelation::Citizenship(c)),
+        2 => CountryRelation::Individual(IndividualCountryRelation::SourceOfFunds(c)),
+        3 => CountryRelation::Individual(IndividualCountryRelation::TaxResidency(c)),
+        5 => CountryRelation::Organization(OrganizationCountryRelation::Incorporation(c)),
+        6 => CountryRelation::Organization(OrganizationCountryRelation::OperatingJurisdiction(c)),
+        7 => CountryRelation::Organization(OrganizationCountryRelation::TaxJurisdiction(c)),
+        _ => CountryRelation::Organization(OrganizationCountryRelation::SourceOfFunds(c)),
+    };
+    CountryData { country, metadata }
 }
-fn cd_coq_desc(d: &Cd) -> String {
-    match d.1 { None => format!("(Build_cdata {} None)", d.0), Some((n, l)) => format!("(Build_cdata {} (Some ({}, {})))", d.0, n, if n == 0 { 0 } else { l }) }
-}
+fn sym_bytes(s: &Symbol) -> std::vec::Vec<u8> { s.to_string().into_bytes() }
 fn cd_coq(c: &CountryData) -> String {
-    let code = match &c.country { CountryRelation::Individual(IndividualCountryRelation::Residence(x)) => *x as u64, _ => 999_999 };
-    let meta = c.metadata.as_ref().map(|m| (m.len() as u64, m.values().first().map(|v| v.len() as u64).unwrap_or(0)));
-    cd_coq_desc(&(code, meta))
+    let t = |tag: u64, x: &u32| format!("{}", tag * TAG + *x as u64);
+    let custom = |tag: u8, s: &Symbol, x: &u32| { let mut v = vec![tag]; v.extend_from_slice(&x.to_be_bytes()); v.extend_from_slice(&sym_bytes(s)); odd(&v) };
+    let code = match &c.country {
+        CountryRelation::Individual(r) => match r {
+            IndividualCountryRelation::Residence(x) => t(0, x), IndividualCountryRelation::Citizenship(x) => t(1, x),
+            IndividualCountryRelation::SourceOfFunds(x) => t(2, x), IndividualCountryRelation::TaxResidency(x) => t(3, x),
+            IndividualCountryRelation::Custom(s, x) => custom(4, s, x) },
+        CountryRelation::Organization(r) => match r {
+            OrganizationCountryRelation::Incorporation(x) => t(5, x), OrganizationCountryRelation::OperatingJurisdiction(x) => t(6, x),
+            OrganizationCountryRelation::TaxJurisdiction(x) => t(7, x), OrganizationCountryRelation::SourceOfFunds(x) => t(8, x),
+            OrganizationCountryRelation::Custom(s, x) => custom(9, s, x) },
+    };
+    match &c.metadata {
+        None => format!("(Build_cdata {} None)", code),
+        Some(m) => format!("(Build_cdata {} (Some {}))", code, list(&m.iter().map(|(k, v)| format!("({}, {})", enc(&sym_bytes(&k)), enc(&sbytes(&v)))).collect::<std::vec::Vec<_>>())),
+    }
 }
+/// the call argument as the contract receives it
+fn cd_coq_desc(e: &Env, d: &Cd) -> String { cd_coq(&cd_make(e, d)) }
 
 struct Ir<'a> { e: Env, c: IrsCClient<'a>, u: Uni }
 impl<'a> Ir<'a> {
@@ -1129,13 +1418,87 @@ impl<'a> Ir<'a> {
 }
 fn irs_header() -> String { format!("TrIRS {} {} {}", irl::MAX_COUNTRY_ENTRIES, irl::MAX_METADATA_ENTRIES, irl::MAX_METADATA_STRING_LEN) }
 
+fn directed_irs(out: &mut Out) {
+    let maxc = irl::MAX_COUNTRY_ENTRIES as u64;
+    let maxm = irl::MAX_METADATA_ENTRIES as u64;
+    let maxl = irl::MAX_METADATA_STRING_LEN as u64;
+    let cl = |t: &Ir, ds: &[Cd]| list(&ds.iter().map(|d| cd_coq_desc(&t.e, d)).collect::<std::vec::Vec<_>>());
+    let add = |t: &Ir, a: usize, id: usize, org: bool, ds: &[Cd]| (format!("IrAdd {} {} {} {}", a, id, if org { 1 } else { 0 }, cl(t, ds)), unit_ok(t.c.try_add_identity(&t.u.a[a], &t.u.a[id], &org, &t.cds(ds))));
+    let rec = |t: &Ir, a: usize, nw: usize| (format!("IrRecover {} {}", a, nw), unit_ok(t.c.try_recover_identity(&t.u.a[a], &t.u.a[nw])));
+    let rem = |t: &Ir, a: usize| (format!("IrRemove {}", a), unit_ok(t.c.try_remove_identity(&t.u.a[a])));
+    let addc = |t: &Ir, a: usize, ds: &[Cd]| (format!("IrAddCountries {} {}", a, cl(t, ds)), unit_ok(t.c.try_add_countries(&t.u.a[a], &t.cds(ds))));
+    let modc = |t: &Ir, a: usize, i: u64, d: &Cd| (format!("IrModifyCountry {} {} {}", a, i, cd_coq_desc(&t.e, d)), unit_ok(t.c.try_modify_country(&t.u.a[a], &(i as u32), &cd_make(&t.e, d))));
+    let delc = |t: &Ir, a: usize, i: u64| (format!("IrDeleteCountry {} {}", a, i), unit_ok(t.c.try_delete_country(&t.u.a[a], &(i as u32))));
+    // 1. identities and recovery links
+    {
+        let t = Ir::new(6); let mut tr = Tr::new(); let accts = [0usize, 1, 2, 3];
+        let qs = |t: &Ir| t.queries(&accts);
+        let (c, r) = add(&t, 0, 4, false, &[(1, None)]); tr.sit(out, "irs.add", "irs.s.add", &c, r, qs(&t));
+        let (c, r) = add(&t, 0, 5, false, &[(2, None)]); tr.sit(out, "irs.add", "irs.s.add_duplicate", &c, r, qs(&t));
+        let (c, r) = add(&t, 1, 5, false, &[]); tr.sit(out, "irs.add", "irs.s.add_without_countries", &c, r, qs(&t));
+        let (c, r) = add(&t, 1, 5, true, &[(5 * TAG + 2, Some((2, 3))), (8 * TAG + 3, None)]); tr.sit(out, "irs.add", "irs.s.add_organization", &c, r, qs(&t));
+        let (c, r) = (format!("IrModify {} {}", 1, 4), unit_ok(t.c.try_modify_identity(&t.u.a[1], &t.u.a[4]))); tr.sit(out, "irs.modify", "irs.s.modify", &c, r, qs(&t));
+        let (c, r) = (format!("IrModify {} {}", 2, 4), unit_ok(t.c.try_modify_identity(&t.u.a[2], &t.u.a[4]))); tr.sit(out, "irs.modify", "irs.s.modify_absent", &c, r, qs(&t));
+        advance(&t.e, 100); tr.advance(out, "irs", 100, "tt", qs(&t));
+        let (c, r) = rec(&t, 0, 2); tr.sit(out, "irs.recover", "irs.s.recover", &c, r, qs(&t));
+        let (c, r) = add(&t, 0, 4, false, &[(1, None)]); tr.sit(out, "irs.add", "irs.s.add_on_recovered_account", &c, r, qs(&t));
+        let (c, r) = rec(&t, 1, 0); tr.sit(out, "irs.recover", "irs.s.recover_into_recovered_account", &c, r, qs(&t));
+        let (c, r) = rec(&t, 0, 3); tr.sit(out, "irs.recover", "irs.s.recover_from_recovered_account", &c, r, qs(&t));
+        let (c, r) = rec(&t, 1, 2); tr.sit(out, "irs.recover", "irs.s.recover_into_registered_account", &c, r, qs(&t));
+        let (c, r) = rec(&t, 1, 1); tr.sit(out, "irs.recover", "irs.s.recover_into_itself", &c, r, qs(&t));
+        let (c, r) = rem(&t, 1); tr.sit(out, "irs.remove", "irs.s.remove", &c, r, qs(&t));
+        let (c, r) = rem(&t, 1); tr.sit(out, "irs.remove", "irs.s.remove_absent", &c, r, qs(&t));
+        let (c, r) = add(&t, 1, 5, false, &[(3 * TAG + 7, None)]); tr.sit(out, "irs.add", "irs.s.readd_after_removal", &c, r, qs(&t));
+        advance(&t.e, 4_000_000); tr.advance(out, "irs", 4_000_000, "tt", qs(&t));
+        let (c, r) = rem(&t, 2); tr.sit(out, "irs.remove", "irs.s.remove_recovery_target", &c, r, qs(&t));
+        let (c, r) = add(&t, 0, 4, false, &[(1, None)]); tr.sit(out, "irs.add", "irs.s.add_on_recovered_account", &c, r, qs(&t));
+        let (c, r) = add(&t, 2, 4, false, &[(1, None)]); tr.sit(out, "irs.add", "irs.s.readd_recovery_target", &c, r, qs(&t));
+        let (c, r) = rec(&t, 2, 3); tr.sit(out, "irs.recover", "irs.s.recover_chain", &c, r, qs(&t));
+        let (c, r) = add(&t, 2, 4, false, &[(1, None)]); tr.sit(out, "irs.add", "irs.s.add_on_recovered_account", &c, r, qs(&t));
+        let (c, r) = add(&t, 5, 5, false, &[(1 * TAG + 1, None)]); tr.sit(out, "irs.add", "irs.s.account_is_its_identity", &c, r, t.queries(&[0, 1, 2, 3, 5]));
+        advance(&t.e, 20); tr.advance(out, "irs", 20, "tt", t.queries(&[0, 1, 2, 3, 5]));
+        let n = tr.len(); out.trace("irs/directed", format!("{} {}", irs_header(), list(&tr.ev)), n);
+    }
+    // 2. MAX_COUNTRY_ENTRIES, MAX_METADATA_ENTRIES, MAX_METADATA_STRING_LEN: at the limit and one past it
+    {
+        let t = Ir::new(5); let mut tr = Tr::new(); let accts = [0usize, 1, 2];
+        let qs = |t: &Ir| t.queries(&accts);
+        let many = |n: u64| -> std::vec::Vec<Cd> { (0..n).map(|i| ((i % 4) * TAG + 1 + i, None)).collect() };
+        let (c, r) = add(&t, 0, 3, false, &many(maxc + 1)); tr.sit(out, "irs.add", "irs.s.add_countries_over_limit", &c, r, qs(&t));
+        let (c, r) = add(&t, 0, 3, false, &many(maxc)); tr.sit(out, "irs.add", "irs.s.add_countries_at_limit", &c, r, qs(&t));
+        let (c, r) = addc(&t, 0, &[(99, None)]); tr.sit(out, "irs.add_countries", "irs.s.countries_over_limit", &c, r, qs(&t));
+        let (c, r) = add(&t, 1, 4, true, &[(5 * TAG + 1, None)]); tr.sit(out, "irs.add", "irs.s.add_organization", &c, r, qs(&t));
+        let (c, r) = delc(&t, 1, 0); tr.sit(out, "irs.delete_country", "irs.s.delete_only_country", &c, r, qs(&t));
+        let (c, r) = addc(&t, 1, &many(maxc)); tr.sit(out, "irs.add_countries", "irs.s.countries_over_limit", &c, r, qs(&t));
+        let (c, r) = addc(&t, 1, &many(maxc - 1)); tr.sit(out, "irs.add_countries", "irs.s.countries_at_limit", &c, r, qs(&t));
+        let (c, r) = addc(&t, 1, &[]); tr.sit(out, "irs.add_countries", "irs.s.add_no_countries", &c, r, qs(&t));
+        advance(&t.e, 17_281); tr.advance(out, "irs", 17_281, "tt", qs(&t));
+        let (c, r) = delc(&t, 1, 0); tr.sit(out, "irs.delete_country", "irs.s.delete_first_country", &c, r, qs(&t));
+        let (c, r) = delc(&t, 1, maxc - 2); tr.sit(out, "irs.delete_country", "irs.s.delete_last_country", &c, r, qs(&t));
+        let (c, r) = delc(&t, 1, maxc - 2); tr.sit(out, "irs.delete_country", "irs.s.delete_country_out_of_range", &c, r, qs(&t));
+        let (c, r) = addc(&t, 1, &[(7, None), (8, None)]); tr.sit(out, "irs.add_countries", "irs.s.countries_at_limit", &c, r, qs(&t));
+        let (c, r) = modc(&t, 1, 0, &(3, Some((maxm, maxl)))); tr.sit(out, "irs.modify_country", "irs.s.metadata_at_both_limits", &c, r, qs(&t));
+        let (c, r) = modc(&t, 1, 1, &(3, Some((maxm + 1, 1)))); tr.sit(out, "irs.modify_country", "irs.s.metadata_entries_over_limit", &c, r, qs(&t));
+        let (c, r) = modc(&t, 1, 1, &(3, Some((1, maxl + 1)))); tr.sit(out, "irs.modify_country", "irs.s.metadata_string_over_limit", &c, r, qs(&t));
+        let (c, r) = modc(&t, 1, maxc, &(3, None)); tr.sit(out, "irs.modify_country", "irs.s.modify_country_out_of_range", &c, r, qs(&t));
+        let (c, r) = modc(&t, 1, maxc - 1, &(6 * TAG + 3, Some((0, 0)))); tr.sit(out, "irs.modify_country", "irs.s.metadata_empty_map", &c, r, qs(&t));
+        let (c, r) = add(&t, 2, 3, false, &[(1, Some((maxm + 1, 1)))]); tr.sit(out, "irs.add", "irs.s.metadata_entries_over_limit", &c, r, qs(&t));
+        let (c, r) = add(&t, 2, 3, false, &[(1, Some((2, maxl + 1)))]); tr.sit(out, "irs.add", "irs.s.metadata_string_over_limit", &c, r, qs(&t));
+        let (c, r) = add(&t, 2, 3, false, &[(1, Some((maxm, maxl))), (2, Some((1, maxl)))]); tr.sit(out, "irs.add", "irs.s.metadata_at_both_limits", &c, r, qs(&t));
+        let (c, r) = addc(&t, 2, &[(4, Some((1, maxl + 1)))]); tr.sit(out, "irs.add_countries", "irs.s.metadata_string_over_limit", &c, r, qs(&t));
+        advance(&t.e, 600_000); tr.advance(out, "irs", 600_000, "tt", qs(&t));
+        let n = tr.len(); out.trace("irs/directed-limits", format!("{} {}", irs_header(), list(&tr.ev)), n);
+    }
+}
+
 fn run_irs(out: &mut Out, rng: &mut Rng) {
     let maxc = irl::MAX_COUNTRY_ENTRIES as u64;
     let maxm = irl::MAX_METADATA_ENTRIES as u64;
     let maxl = irl::MAX_METADATA_STRING_LEN as u64;
     let thorough = out.cfg.thorough;
     let scale = out.cfg.scale as usize;
-    let na = if thorough { 500 } else { 50 } * scale;
+    directed_irs(out);
+    let na = if directed_only() { 0 } else if thorough { 500 } else { 50 } * scale;
     for it in 0..na {
         let nacct = 2 + rng.below(4) as usize;       // accounts 0..nacct ; identities are the last two addresses
         let t = Ir::new(nacct + 2);
@@ -1144,7 +1507,7 @@ fn run_irs(out: &mut Out, rng: &mut Rng) {
         let ncalls = if thorough { 50 } else { 28 };
         let limit_heavy = it % 5 == 4;
         let rand_cd = |rng: &mut Rng| -> Cd {
-            let code = 1 + rng.below(5);
+            let code = 1 + rng.below(5) + *rng.pick(&[0u64, 0, 0, 1, 3, 5, 8]) * TAG;
             let meta = match rng.below(12) {
                 0 => Some((0, 0)), 1 => Some((maxm, maxl)), 2 => Some((maxm + 1, 1)), 3 => Some((1, maxl + 1)), 4 => Some((2, 3)), _ => None };
             (code, meta)
@@ -1165,7 +1528,7 @@ fn run_irs(out: &mut Out, rng: &mut Rng) {
                     let ds: std::vec::Vec<Cd> = (0..n).map(|_| if limit_heavy { (1 + rng.below(5), None) } else { rand_cd(rng) }).collect();
                     let org = rng.chance(1, 3);
                     r = unit_ok(t.c.try_add_identity(&t.u.a[a], &t.u.a[ident], &org, &t.cds(&ds)));
-                    label = "irs.add"; call = format!("IrAdd {} {} {} {}", a, ident, if org { 1 } else { 0 }, list(&ds.iter().map(cd_coq_desc).collect::<std::vec::Vec<_>>()));
+                    label = "irs.add"; call = format!("IrAdd {} {} {} {}", a, ident, if org { 1 } else { 0 }, list(&ds.iter().map(|d| cd_coq_desc(&t.e, d)).collect::<std::vec::Vec<_>>()));
                 }
                 4 => { r = unit_ok(t.c.try_modify_identity(&t.u.a[a], &t.u.a[ident])); label = "irs.modify"; call = format!("IrModify {} {}", a, ident); }
                 5..=6 => { r = unit_ok(t.c.try_remove_identity(&t.u.a[a])); label = "irs.remove"; call = format!("IrRemove {}", a); }
@@ -1178,12 +1541,12 @@ fn run_irs(out: &mut Out, rng: &mut Rng) {
                     let n = if limit_heavy && have > 0 && have <= maxc { match rng.below(3) { 0 => maxc - have, 1 => maxc - have + 1, _ => 1 } } else { match rng.below(8) { 0 => 0, _ => 1 + rng.below(2) } };
                     let ds: std::vec::Vec<Cd> = (0..n).map(|_| rand_cd(rng)).collect();
                     r = unit_ok(t.c.try_add_countries(&t.u.a[a], &t.cds(&ds)));
-                    label = "irs.add_countries"; call = format!("IrAddCountries {} {}", a, list(&ds.iter().map(cd_coq_desc).collect::<std::vec::Vec<_>>()));
+                    label = "irs.add_countries"; call = format!("IrAddCountries {} {}", a, list(&ds.iter().map(|d| cd_coq_desc(&t.e, d)).collect::<std::vec::Vec<_>>()));
                 }
                 11 => { if !have.is_empty() && rng.chance(3, 4) { a = *rng.pick(&have); }
                         let have = tryv!(t.c.try_countries(&t.u.a[a])).map(|v| v.len()).unwrap_or(0) as u64; let i = match rng.below(4) { 0 => have, 1 => have.saturating_sub(1), _ => rng.below(have + 1) };
                         let d = rand_cd(rng);
-                        r = unit_ok(t.c.try_modify_country(&t.u.a[a], &(i as u32), &cd_make(&t.e, &d))); label = "irs.modify_country"; call = format!("IrModifyCountry {} {} {}", a, i, cd_coq_desc(&d)); }
+                        r = unit_ok(t.c.try_modify_country(&t.u.a[a], &(i as u32), &cd_make(&t.e, &d))); label = "irs.modify_country"; call = format!("IrModifyCountry {} {} {}", a, i, cd_coq_desc(&t.e, &d)); }
                 _ => { if !have.is_empty() && rng.chance(3, 4) { a = *rng.pick(&have); }
                        let have = tryv!(t.c.try_countries(&t.u.a[a])).map(|v| v.len()).unwrap_or(0) as u64; let i = match rng.below(4) { 0 => have, 1 => have.saturating_sub(1), _ => rng.below(have + 1) };
                        r = unit_ok(t.c.try_delete_country(&t.u.a[a], &(i as u32))); label = "irs.delete_country"; call = format!("IrDeleteCountry {} {}", a, i); }
@@ -1219,12 +1582,36 @@ impl<'a> Cm<'a> {
         q
     }
 }
+fn directed_compliance(out: &mut Out) {
+    let t = Cm::new(4); let mut tr = Tr::new();
+    let hooks = [0u64, 1, 2, 3, 4]; let mods = [0usize, 1, 2, 3];
+    let qs = |t: &Cm| t.queries(&hooks, &mods);
+    let cur = |t: &Cm, h: u64| -> std::vec::Vec<u64> { tryv!(t.c.try_modules(&hook_of(h))).map(|v| t.u.ids(&v)).unwrap_or_default() };
+    let add = |t: &Cm, h: u64, m: usize| (format!("CmAdd {} {}", h, m), unit_ok(t.c.try_add_module(&hook_of(h), &t.u.a[m])));
+    let rem = |t: &Cm, h: u64, m: usize| (format!("CmRemove {} {}", h, m), unit_ok(t.c.try_remove_module(&hook_of(h), &t.u.a[m])));
+    for m in 0..3 { let (c, r) = add(&t, 3, m); tr.sit(out, "cm.add", "cm.s.add", &c, r, qs(&t)); }
+    let (c, r) = add(&t, 3, 1); tr.sit(out, "cm.add", "cm.s.add_duplicate", &c, r, qs(&t));
+    let (c, r) = add(&t, 0, 1); tr.sit(out, "cm.add", "cm.s.add_same_module_other_hook", &c, r, qs(&t));
+    advance(&t.e, 100); tr.advance(out, "cm", 100, "tt", qs(&t));
+    let m = cur(&t, 3)[0] as usize; let (c, r) = rem(&t, 3, m); tr.sit(out, "cm.remove", "cm.s.remove_first", &c, r, qs(&t));
+    let l = cur(&t, 3); let m = l[l.len() - 1] as usize; let (c, r) = rem(&t, 3, m); tr.sit(out, "cm.remove", "cm.s.remove_last", &c, r, qs(&t));
+    advance(&t.e, 4_000_000); tr.advance(out, "cm", 4_000_000, "tt", qs(&t));
+    let m = cur(&t, 3)[0] as usize; let (c, r) = rem(&t, 3, m); tr.sit(out, "cm.remove", "cm.s.remove_only", &c, r, qs(&t));
+    let (c, r) = rem(&t, 3, m); tr.sit(out, "cm.remove", "cm.s.remove_absent", &c, r, qs(&t));
+    let (c, r) = rem(&t, 4, 1); tr.sit(out, "cm.remove", "cm.s.remove_registered_for_other_hook_only", &c, r, qs(&t));
+    let (c, r) = add(&t, 3, m); tr.sit(out, "cm.add", "cm.s.readd_after_removal", &c, r, qs(&t));
+    advance(&t.e, 20); tr.advance(out, "cm", 20, "tt", qs(&t));
+    let n = tr.len(); out.trace("compliance/directed", format!("TrCM {} {}", cmm::MAX_MODULES, list(&tr.ev)), n);
+}
+
 fn run_compliance(out: &mut Out, rng: &mut Rng) {
     let maxm = cmm::MAX_MODULES as usize;
     let thorough = out.cfg.thorough;
     let scale = out.cfg.scale as usize;
     let header = format!("TrCM {}", cmm::MAX_MODULES);
-    let na = if thorough { 300 } else { 30 } * scale;
+    let donly = directed_only();
+    directed_compliance(out);
+    let na = if donly { 0 } else if thorough { 300 } else { 30 } * scale;
     for _ in 0..na {
         let nm = 2 + rng.below(4) as usize;
         let t = Cm::new(nm);
@@ -1253,7 +1640,7 @@ fn run_compliance(out: &mut Out, rng: &mut Rng) {
         out.trace("compliance/small", format!("{} {}", header, list(&tr.ev)), n);
     }
     // thorough tier: EVERY sequence of 4 add / remove operations over 2 hooks x 2 modules
-    if thorough {
+    if thorough && !donly {
         for seq in all_seqs(8, 4) {
             let t = Cm::new(2);
             let mut tr = Tr::new();
@@ -1305,9 +1692,7 @@ impl<'a> Ic<'a> {
         let id = e.register(ClaimsC, ());
         let c = ClaimsCClient::new(&e, &id);
         let issuers: std::vec::Vec<Address> = (0..nissuer).map(|_| e.register(IssuerMock, ())).collect();
-        let mut m = std::collections::HashMap::new();
-        for (i, x) in issuers.iter().enumerate() { m.insert(soroban_sdk::xdr::ScAddress::from(x), i as u64); }
-        let u = Uni { a: issuers, m };
+        let u = Uni::of(issuers);
         // the claim id of every (issuer, topic) of the universe; the idealisation "id = the pair" needs them distinct
         let mut ids = std::collections::HashMap::new();
         for i in 0..nissuer { for t in 0..=nt + 1 {
@@ -1317,10 +1702,10 @@ impl<'a> Ic<'a> {
         Ic { e, c, u, ids, nt }
     }
     fn cid(&self, i: usize, t: u64) -> BytesN<32> { icl::generate_claim_id(&self.e, &self.u.a[i], t as u32) }
-    fn cid_coq(&self, b: &BytesN<32>) -> String { let (i, t) = self.ids.get(&b.to_array()).cloned().unwrap_or((999_999_999, 999_999_999)); format!("({}, {})", i, t) }
+    fn cid_coq(&self, b: &BytesN<32>) -> String { match self.ids.get(&b.to_array()) { Some((i, t)) => format!("({}, {})", i, t), None => format!("(1000000000, {})", bn32_id(b)) } }
     fn bytes(&self, x: u64) -> Bytes { if x == 0 { Bytes::new(&self.e) } else { Bytes::from_array(&self.e, &x.to_be_bytes()) } }
     fn claim_coq(&self, c: &icl::Claim) -> String {
-        format!("(Build_claim {} {} {} {} {} {})", c.topic, c.scheme, self.u.id(&c.issuer), pk_id(&c.signature), pk_id(&c.data), sstr(&c.uri).parse::<u64>().unwrap_or(0))
+        format!("(Build_claim {} {} {} {} {} {})", c.topic, c.scheme, self.u.id(&c.issuer), pk_id(&c.signature), pk_id(&c.data), num_or_odd(&sbytes(&c.uri)))
     }
     fn queries(&self) -> std::vec::Vec<String> {
         let mut q = vec![];
@@ -1336,10 +1721,36 @@ impl<'a> Ic<'a> {
         q
     }
 }
+fn directed_claims(out: &mut Out) {
+    let t = Ic::new(3, 2); let mut tr = Tr::new();
+    let add = |t: &Ic, i: usize, tp: u64, scheme: u64, sig: u64, data: u64, uri: u64| {
+        let r = match t.c.try_add_claim(&(tp as u32), &(scheme as u32), &t.u.a[i], &t.bytes(sig), &t.bytes(data), &SString::from_str(&t.e, &format!("{}", uri))) {
+            Ok(Ok(id)) => Some(format!("(Some {})", t.cid_coq(&id))), _ => None };
+        (format!("IcAdd (Build_claim {} {} {} {} {} {}) {}", tp, scheme, i, sig, data, uri, b(sig != 0)), r) };
+    let rem = |t: &Ic, i: usize, tp: u64| (format!("IcRemove ({}, {})", i, tp), match t.c.try_remove_claim(&t.cid(i, tp)) { Ok(Ok(())) => Some("None".to_string()), _ => None });
+    for i in 0..3 { let (c, r) = add(&t, i, 1, 101, 1 + i as u64, i as u64, 10 + i as u64); tr.sit(out, "ic.add", "ic.s.add", &c, r, t.queries()); }
+    let (c, r) = add(&t, 0, 2, 102, 5, 6, 7); tr.sit(out, "ic.add", "ic.s.add_other_topic", &c, r, t.queries());
+    let (c, r) = add(&t, 1, 1, 102, 9, 8, 77); tr.sit(out, "ic.add", "ic.s.update_existing_claim", &c, r, t.queries());
+    let (c, r) = add(&t, 1, 2, 101, 0, 1, 5); tr.sit(out, "ic.add", "ic.s.add_rejected_by_issuer", &c, r, t.queries());
+    advance(&t.e, 100); tr.advance(out, "ic", 100, "None", t.queries());
+    let (c, r) = rem(&t, 0, 1); tr.sit(out, "ic.remove", "ic.s.remove_first_of_topic", &c, r, t.queries());
+    let l = tryv!(t.c.try_ids_by_topic(&1)).map(|v| v.iter().map(|x| t.ids.get(&x.to_array()).cloned().unwrap_or((0, 1))).collect::<std::vec::Vec<_>>()).unwrap_or_default();
+    let (i, tp) = if l.is_empty() { (1, 1) } else { l[l.len() - 1] };
+    let (c, r) = rem(&t, i as usize, tp); tr.sit(out, "ic.remove", "ic.s.remove_last_of_topic", &c, r, t.queries());
+    advance(&t.e, 4_000_000); tr.advance(out, "ic", 4_000_000, "None", t.queries());
+    let (c, r) = rem(&t, 0, 2); tr.sit(out, "ic.remove", "ic.s.remove_only_of_topic", &c, r, t.queries());
+    let (c, r) = rem(&t, 0, 2); tr.sit(out, "ic.remove", "ic.s.remove_absent", &c, r, t.queries());
+    let (c, r) = add(&t, 0, 1, 101, 2, 2, 2); tr.sit(out, "ic.add", "ic.s.readd_after_removal", &c, r, t.queries());
+    let (c, r) = add(&t, 0, 2, 101, 3, 3, 3); tr.sit(out, "ic.add", "ic.s.readd_after_removal", &c, r, t.queries());
+    advance(&t.e, 20); tr.advance(out, "ic", 20, "None", t.queries());
+    let n = tr.len(); out.trace("claims/directed", format!("TrIC {}", list(&tr.ev)), n);
+}
+
 fn run_claims(out: &mut Out, rng: &mut Rng) {
     let thorough = out.cfg.thorough;
     let scale = out.cfg.scale as usize;
-    let na = if thorough { 300 } else { 35 } * scale;
+    directed_claims(out);
+    let na = if directed_only() { 0 } else if thorough { 300 } else { 35 } * scale;
     for _ in 0..na {
         let ni = 1 + rng.below(3) as usize; let nt = 1 + rng.below(3);
         let t = Ic::new(ni, nt);
@@ -1378,7 +1789,7 @@ fn run_claims(out: &mut Out, rng: &mut Rng) {
 type Sg = (u64, usize, u64);
 /// context type descriptor: (0 default / 1 call-contract / 2 create-contract, address index or hash id)
 type Cx = (u64, u64);
-struct Sa<'a> { e: Env, c: SaCClient<'a>, u: Uni, pol: Uni }
+struct Sa<'a> { e: Env, c: SaCClient<'a>, u: Uni, pol: Uni, grumpy: std::vec::Vec<bool> }
 impl<'a> Sa<'a> {
     fn new(naddr: usize, npol: usize) -> Sa<'a> {
         let e = new_env();
@@ -1390,10 +1801,9 @@ impl<'a> Sa<'a> {
         let mut m: Map<Address, ()> = Map::new(&e);
         for a in raw.iter() { m.set(a.clone(), ()); }
         let sorted: std::vec::Vec<Address> = m.keys().iter().collect();
-        let mut hm = std::collections::HashMap::new();
-        for (i, x) in sorted.iter().enumerate() { hm.insert(soroban_sdk::xdr::ScAddress::from(x), i as u64); }
-        let pol = Uni { a: sorted, m: hm };
-        Sa { e, c, u, pol }
+        let grumpy: std::vec::Vec<bool> = sorted.iter().map(|a| raw.iter().position(|x| x == a).map(|i| i % 3 == 2).unwrap_or(false)).collect();
+        let pol = Uni::of(sorted);
+        Sa { e, c, u, pol, grumpy }
     }
     fn signer(&self, s: &Sg) -> Signer {
         if s.0 == 0 { Signer::Delegated(self.u.a[s.1].clone()) } else { Signer::External(self.u.a[s.1].clone(), Bytes::from_array(&self.e, &s.2.to_be_bytes())) }
@@ -1408,7 +1818,7 @@ impl<'a> Sa<'a> {
         match c { ContextRuleType::Default => "CDefault".into(), ContextRuleType::CallContract(a) => format!("(CCall {})", self.u.id(a)), ContextRuleType::CreateContract(h) => format!("(CCreate {})", bn32_id(h)) }
     }
     fn rule_coq(&self, r: &ContextRule) -> String {
-        format!("(Build_rule {} {} {} {} {} {})", r.id, self.ctx_coq(&r.context_type), sstr(&r.name).parse::<u64>().unwrap_or(0),
+        format!("(Build_rule {} {} {} {} {} {})", r.id, self.ctx_coq(&r.context_type), num_or_odd(&sbytes(&r.name)),
                 list(&r.signers.iter().map(|s| self.signer_coq(&s)).collect::<std::vec::Vec<_>>()), nlist(&self.pol.ids(&r.policies)),
                 match r.valid_until { Some(v) => format!("(Some {})", v), None => "None".into() })
     }
@@ -1445,6 +1855,149 @@ impl<'a> Sa<'a> {
     }
 }
 
+fn directed_sa(out: &mut Out, header: &str) {
+    let maxr = sal::MAX_CONTEXT_RULES as u64;
+    let maxs = sal::MAX_SIGNERS as usize;
+    let maxp = sal::MAX_POLICIES as usize;
+    let ctxs: std::vec::Vec<Cx> = vec![(0, 0), (1, 0), (1, 1), (2, 5)];
+    let unit = |x: Option<()>| -> Option<String> { x.map(|_| "None".to_string()) };
+    let d = |i: usize| -> Sg { (0, i, 0) };
+    let add_s = |t: &Sa, id: u32, s: &Sg| (format!("SaAddSigner {} {}", id, t.sg_coq(s)), unit(tryv!(t.c.try_add_signer(&id, &t.signer(s)))));
+    let rem_s = |t: &Sa, id: u32, s: &Sg| (format!("SaRemoveSigner {} {}", id, t.sg_coq(s)), unit(tryv!(t.c.try_remove_signer(&id, &t.signer(s)))));
+    let add_p = |t: &Sa, id: u32, p: usize, ok: bool| (format!("SaAddPolicy {} {} {}", id, p, b(ok)), unit(tryv!(t.c.try_add_policy(&id, &t.pol.a[p], &(if ok { 0u32 } else { 1u32 }).into_val(&t.e)))));
+    let rem_p = |t: &Sa, id: u32, p: usize| (format!("SaRemovePolicy {} {}", id, p), unit(tryv!(t.c.try_remove_policy(&id, &t.pol.a[p]))));
+    let rem_r = |t: &Sa, id: u32| (format!("SaRemoveRule {}", id), unit(tryv!(t.c.try_remove_rule(&id))));
+    let upd_n = |t: &Sa, id: u32, nm: u64| (format!("SaUpdateName {} {}", id, nm), tryv!(t.c.try_update_name(&id, &t.name(nm))).map(|x| format!("(Some {})", t.rule_coq(&x))));
+    let upd_u = |t: &Sa, id: u32, u: Option<u32>| (format!("SaUpdateUntil {} {}", id, match u { Some(v) => format!("(Some {})", v), None => "None".into() }),
+                                                   tryv!(t.c.try_update_until(&id, &u)).map(|x| format!("(Some {})", t.rule_coq(&x))));
+    // 1. every way a duplicate fingerprint (context type, signer SET, policy SET) can arise - and the near misses
+    //    that must be accepted
+    {
+        let t = Sa::new(4, 4); let mut tr = Tr::new();
+        let qs = |t: &Sa| t.queries(12, &ctxs);
+        let (c, r) = t.add_rule(&(0, 0), 1, None, &[d(0), d(1)], &[]); tr.sit(out, "sa.add_rule", "sa.s.fp_first", &c, r, qs(&t));                       // id 0
+        let (c, r) = t.add_rule(&(0, 0), 2, None, &[d(0), d(1)], &[]); tr.sit(out, "sa.add_rule", "sa.s.fp_same_signers_same_order", &c, r, qs(&t));
+        let (c, r) = t.add_rule(&(0, 0), 2, Some(5_000_000), &[d(1), d(0)], &[]); tr.sit(out, "sa.add_rule", "sa.s.fp_same_signers_other_order", &c, r, qs(&t));
+        let (c, r) = t.add_rule(&(1, 0), 2, None, &[d(1), d(0)], &[]); tr.sit(out, "sa.add_rule", "sa.s.fp_same_signers_other_context_type", &c, r, qs(&t));    // id 1
+        let (c, r) = t.add_rule(&(1, 1), 2, None, &[d(0), d(1)], &[]); tr.sit(out, "sa.add_rule", "sa.s.fp_same_signers_other_contract", &c, r, qs(&t));        // id 2
+        let (c, r) = t.add_rule(&(0, 0), 3, None, &[d(0), d(1)], &[(0, true)]); tr.sit(out, "sa.add_rule", "sa.s.fp_same_signers_plus_policy", &c, r, qs(&t));  // id 3
+        let (c, r) = t.add_rule(&(0, 0), 3, None, &[d(0), (1, 1, 1)], &[]); tr.sit(out, "sa.add_rule", "sa.s.fp_external_signer", &c, r, qs(&t));            // id 4
+        let (c, r) = t.add_rule(&(0, 0), 3, None, &[(1, 1, 2), d(0)], &[]); tr.sit(out, "sa.add_rule", "sa.s.fp_external_signer_other_key", &c, r, qs(&t)); // id 5
+        let (c, r) = t.add_rule(&(0, 0), 3, None, &[(1, 1, 1), d(0)], &[]); tr.sit(out, "sa.add_rule", "sa.s.fp_external_signer_other_order", &c, r, qs(&t));
+        advance(&t.e, 100); tr.advance(out, "sa", 100, "None", qs(&t));
+        // through add_signer / remove_signer
+        let (c, r) = t.add_rule(&(0, 0), 4, None, &[d(0)], &[]); tr.sit(out, "sa.add_rule", "sa.s.fp_subset_of_signers", &c, r, qs(&t));                    // id 6
+        let (c, r) = add_s(&t, 6, &d(1)); tr.sit(out, "sa.add_signer", "sa.s.fp_duplicate_via_add_signer", &c, r, qs(&t));
+        let (c, r) = add_s(&t, 6, &d(2)); tr.sit(out, "sa.add_signer", "sa.s.fp_new_via_add_signer", &c, r, qs(&t));                                       // 6 = {0,2}
+        let (c, r) = t.add_rule(&(0, 0), 4, None, &[d(2), d(1), d(0)], &[]); tr.sit(out, "sa.add_rule", "sa.s.fp_superset_of_signers", &c, r, qs(&t));      // id 7
+        let (c, r) = rem_s(&t, 7, &d(2)); tr.sit(out, "sa.remove_signer", "sa.s.fp_duplicate_via_remove_signer", &c, r, qs(&t));                          // -> {1,0} = rule 0
+        let (c, r) = rem_s(&t, 7, &d(1)); tr.sit(out, "sa.remove_signer", "sa.s.fp_duplicate_via_remove_signer", &c, r, qs(&t));                          // -> {2,0} = rule 6
+        let (c, r) = rem_s(&t, 7, &d(0)); tr.sit(out, "sa.remove_signer", "sa.s.fp_new_via_remove_signer", &c, r, qs(&t));                                // 7 = {2,1}
+        let (c, r) = t.add_rule(&(0, 0), 4, None, &[d(0), d(1), d(2)], &[]); tr.sit(out, "sa.add_rule", "sa.s.fp_freed_by_remove_signer", &c, r, qs(&t));   // id 8
+        // through add_policy / remove_policy
+        let (c, r) = add_p(&t, 0, 0, true); tr.sit(out, "sa.add_policy", "sa.s.fp_duplicate_via_add_policy", &c, r, qs(&t));                               // = rule 3
+        let (c, r) = add_p(&t, 0, 1, true); tr.sit(out, "sa.add_policy", "sa.s.fp_new_via_add_policy", &c, r, qs(&t));                                     // 0 = {0,1}+{1}
+        let (c, r) = add_p(&t, 0, 0, true); tr.sit(out, "sa.add_policy", "sa.s.fp_new_via_add_policy", &c, r, qs(&t));                                     // 0 = {0,1}+[1,0]
+        let (c, r) = t.add_rule(&(0, 0), 5, None, &[d(1), d(0)], &[(0, true), (1, true)]); tr.sit(out, "sa.add_rule", "sa.s.fp_same_policies_other_order", &c, r, qs(&t));
+        let (c, r) = rem_p(&t, 0, 1); tr.sit(out, "sa.remove_policy", "sa.s.fp_duplicate_via_remove_policy", &c, r, qs(&t));                              // -> +{0} = rule 3
+        let (c, r) = rem_p(&t, 3, 0); tr.sit(out, "sa.remove_policy", "sa.s.fp_new_via_remove_policy", &c, r, qs(&t));                                    // 3 = {0,1}
+        let (c, r) = t.add_rule(&(0, 0), 5, None, &[d(0), d(1)], &[(0, true)]); tr.sit(out, "sa.add_rule", "sa.s.fp_freed_by_remove_policy", &c, r, qs(&t));  // id 9
+        advance(&t.e, 4_000_000); tr.advance(out, "sa", 4_000_000, "None", qs(&t));
+        // removal frees the fingerprint
+        let (c, r) = rem_r(&t, 3); tr.sit(out, "sa.remove_rule", "sa.s.remove_rule", &c, r, qs(&t));
+        let (c, r) = t.add_rule(&(0, 0), 6, None, &[d(1), d(0)], &[]); tr.sit(out, "sa.add_rule", "sa.s.fp_readd_after_rule_removal", &c, r, qs(&t));        // id 10
+        let (c, r) = t.add_rule(&(0, 0), 6, None, &[d(0), d(1)], &[]); tr.sit(out, "sa.add_rule", "sa.s.fp_same_signers_other_order", &c, r, qs(&t));
+        advance(&t.e, 20); tr.advance(out, "sa", 20, "None", qs(&t));
+        let n = tr.len(); out.trace("sa/directed-fingerprints", format!("{} {}", header, list(&tr.ev)), n);
+    }
+    // 2. rules as a set: ids never reused, removing the first / last / only rule of a context type, absent items
+    {
+        let t = Sa::new(4, 4); let mut tr = Tr::new();
+        let qs = |t: &Sa| t.queries(6, &ctxs);
+        let now = 100u32;
+        let pg = t.grumpy.iter().position(|g| *g).unwrap_or(2);            // the policy whose uninstall traps
+        let oth: std::vec::Vec<usize> = (0..4).filter(|i| *i != pg).collect();
+        let (pa, pb, pz) = (oth[0], oth[1], oth[2]);
+        for i in 0..3 { let (c, r) = t.add_rule(&(1, 0), i, None, &[d(i as usize)], &[]); tr.sit(out, "sa.add_rule", "sa.s.add_rule", &c, r, qs(&t)); }     // ids 0 1 2
+        let (c, r) = t.add_rule(&(0, 0), 0, None, &[], &[]); tr.sit(out, "sa.add_rule", "sa.s.add_rule_without_signers_and_policies", &c, r, qs(&t));
+        let (c, r) = t.add_rule(&(0, 0), 0, None, &[d(0), d(0)], &[]); tr.sit(out, "sa.add_rule", "sa.s.add_rule_repeated_signer", &c, r, qs(&t));
+        let (c, r) = t.add_rule(&(0, 0), 0, Some(now - 1), &[d(0)], &[]); tr.sit(out, "sa.add_rule", "sa.s.add_rule_valid_until_in_the_past", &c, r, qs(&t));
+        let (c, r) = t.add_rule(&(0, 0), 0, Some(now), &[d(0)], &[]); tr.sit(out, "sa.add_rule", "sa.s.add_rule_valid_until_now", &c, r, qs(&t));           // id 3
+        let (c, r) = t.add_rule(&(0, 0), 0, None, &[d(1)], &[(pa, false)]); tr.sit(out, "sa.add_rule", "sa.s.add_rule_policy_install_traps", &c, r, qs(&t));
+        let (c, r) = t.add_rule(&(2, 5), 0, None, &[], &[(pb, true)]); tr.sit(out, "sa.add_rule", "sa.s.add_rule_policies_only", &c, r, qs(&t));             // id 4
+        advance(&t.e, 100); tr.advance(out, "sa", 100, "None", qs(&t));
+        let (c, r) = rem_r(&t, 0); tr.sit(out, "sa.remove_rule", "sa.s.remove_first_rule_of_type", &c, r, qs(&t));
+        let (c, r) = rem_r(&t, 2); tr.sit(out, "sa.remove_rule", "sa.s.remove_last_rule_of_type", &c, r, qs(&t));
+        let (c, r) = rem_r(&t, 1); tr.sit(out, "sa.remove_rule", "sa.s.remove_only_rule_of_type", &c, r, qs(&t));
+        let (c, r) = rem_r(&t, 1); tr.sit(out, "sa.remove_rule", "sa.s.remove_absent_rule", &c, r, qs(&t));
+        let (c, r) = rem_r(&t, 4); tr.sit(out, "sa.remove_rule", "sa.s.remove_newest_rule", &c, r, qs(&t));
+        let (c, r) = t.add_rule(&(1, 0), 9, None, &[d(0)], &[]); tr.sit(out, "sa.add_rule", "sa.s.id_not_reused_after_removal", &c, r, qs(&t));              // id 5
+        let (c, r) = upd_n(&t, 5, 7); tr.sit(out, "sa.update_name", "sa.s.update_name", &c, r, qs(&t));
+        let (c, r) = upd_n(&t, 1, 7); tr.sit(out, "sa.update_name", "sa.s.update_name_absent_rule", &c, r, qs(&t));
+        let (c, r) = upd_u(&t, 5, Some(now + 300)); tr.sit(out, "sa.update_until", "sa.s.update_until", &c, r, qs(&t));
+        let (c, r) = upd_u(&t, 5, Some(now + 99)); tr.sit(out, "sa.update_until", "sa.s.update_until_in_the_past", &c, r, qs(&t));
+        let (c, r) = upd_u(&t, 2, None); tr.sit(out, "sa.update_until", "sa.s.update_until_absent_rule", &c, r, qs(&t));
+        let (c, r) = upd_u(&t, 5, None); tr.sit(out, "sa.update_until", "sa.s.update_until_none", &c, r, qs(&t));
+        advance(&t.e, 4_000_000); tr.advance(out, "sa", 4_000_000, "None", qs(&t));
+        // signers and policies of one rule as sets
+        let (c, r) = add_s(&t, 5, &d(0)); tr.sit(out, "sa.add_signer", "sa.s.add_signer_duplicate", &c, r, qs(&t));
+        let (c, r) = add_s(&t, 1, &d(1)); tr.sit(out, "sa.add_signer", "sa.s.add_signer_absent_rule", &c, r, qs(&t));
+        let (c, r) = add_s(&t, 5, &d(1)); tr.sit(out, "sa.add_signer", "sa.s.add_signer", &c, r, qs(&t));
+        let (c, r) = add_s(&t, 5, &(1, 2, 1)); tr.sit(out, "sa.add_signer", "sa.s.add_signer", &c, r, qs(&t));
+        let (c, r) = rem_s(&t, 5, &d(3)); tr.sit(out, "sa.remove_signer", "sa.s.remove_signer_absent", &c, r, qs(&t));
+        let (c, r) = rem_s(&t, 5, &(1, 2, 2)); tr.sit(out, "sa.remove_signer", "sa.s.remove_signer_absent", &c, r, qs(&t));
+        let (c, r) = rem_s(&t, 5, &d(0)); tr.sit(out, "sa.remove_signer", "sa.s.remove_first_signer", &c, r, qs(&t));
+        let (c, r) = rem_s(&t, 5, &(1, 2, 1)); tr.sit(out, "sa.remove_signer", "sa.s.remove_last_signer", &c, r, qs(&t));
+        let (c, r) = rem_s(&t, 5, &d(1)); tr.sit(out, "sa.remove_signer", "sa.s.remove_only_signer_no_policies", &c, r, qs(&t));
+        let (c, r) = add_p(&t, 5, pb, false); tr.sit(out, "sa.add_policy", "sa.s.add_policy_install_traps", &c, r, qs(&t));
+        let (c, r) = add_p(&t, 5, pb, true); tr.sit(out, "sa.add_policy", "sa.s.add_policy", &c, r, qs(&t));
+        let (c, r) = add_p(&t, 5, pb, true); tr.sit(out, "sa.add_policy", "sa.s.add_policy_duplicate", &c, r, qs(&t));
+        let (c, r) = add_p(&t, 5, pa, true); tr.sit(out, "sa.add_policy", "sa.s.add_policy", &c, r, qs(&t));
+        let (c, r) = rem_s(&t, 5, &d(1)); tr.sit(out, "sa.remove_signer", "sa.s.remove_only_signer_with_policies", &c, r, qs(&t));
+        let (c, r) = rem_p(&t, 5, pz); tr.sit(out, "sa.remove_policy", "sa.s.remove_policy_absent", &c, r, qs(&t));
+        let (c, r) = rem_p(&t, 5, pb); tr.sit(out, "sa.remove_policy", "sa.s.remove_first_policy", &c, r, qs(&t));
+        let (c, r) = rem_p(&t, 5, pa); tr.sit(out, "sa.remove_policy", "sa.s.remove_only_policy_no_signers", &c, r, qs(&t));
+        let (c, r) = add_p(&t, 5, pg, true); tr.sit(out, "sa.add_policy", "sa.s.add_policy_uninstall_will_trap", &c, r, qs(&t));
+        let (c, r) = rem_p(&t, 5, pg); tr.sit(out, "sa.remove_policy", "sa.s.remove_policy_uninstall_traps", &c, r, qs(&t));
+        let (c, r) = rem_p(&t, 5, pa); tr.sit(out, "sa.remove_policy", "sa.s.remove_last_policy", &c, r, qs(&t));
+        advance(&t.e, 20); tr.advance(out, "sa", 20, "None", qs(&t));
+        let n = tr.len(); out.trace("sa/directed-sets", format!("{} {}", header, list(&tr.ev)), n);
+    }
+    // 3. MAX_CONTEXT_RULES: at the limit and one past it
+    {
+        let t = Sa::new(3, 4); let mut tr = Tr::new();
+        let qs = |t: &Sa| t.queries(maxr as u32 + 2, &ctxs);
+        for i in 0..maxr { let (c, r) = t.add_rule(&ctxs[(i % 4) as usize], i, None, &[(1, 0, 1 + i)], &[]);
+            tr.sit(out, "sa.add_rule.limit", if i + 1 == maxr { "sa.s.rule_count_reaches_limit" } else { "sa.s.add_rule" }, &c, r, if i + 3 >= maxr { qs(&t) } else { t.queries(i as u32 + 1, &[]) }); }
+        let (c, r) = t.add_rule(&(0, 0), 0, None, &[(1, 0, 99)], &[]); tr.sit(out, "sa.add_rule.limit", "sa.s.rule_count_over_limit", &c, r, qs(&t));
+        advance(&t.e, 600_000); tr.advance(out, "sa", 600_000, "None", qs(&t));
+        let (c, r) = rem_r(&t, 4); tr.sit(out, "sa.remove_rule", "sa.s.remove_rule", &c, r, qs(&t));
+        let (c, r) = t.add_rule(&(0, 0), 0, None, &[(1, 0, 99)], &[]); tr.sit(out, "sa.add_rule.limit", "sa.s.rule_count_reaches_limit", &c, r, qs(&t));
+        let (c, r) = t.add_rule(&(0, 0), 0, None, &[(1, 0, 98)], &[]); tr.sit(out, "sa.add_rule.limit", "sa.s.rule_count_over_limit", &c, r, qs(&t));
+        let n = tr.len(); out.trace("sa/directed-rule-limit", format!("{} {}", header, list(&tr.ev)), n);
+    }
+    // 4. MAX_SIGNERS and MAX_POLICIES: at the limit and one past it, at add_context_rule and at add_signer / add_policy
+    {
+        let t = Sa::new(maxs + 3, maxp + 3); let mut tr = Tr::new();
+        let qs = |t: &Sa| t.queries(1, &ctxs);
+        let sg_over: std::vec::Vec<Sg> = (0..maxs + 1).map(d).collect();
+        let p_over: std::vec::Vec<(usize, bool)> = (0..maxp + 1).map(|i| (i, true)).collect();
+        let (c, r) = t.add_rule(&(0, 0), 1, None, &sg_over, &[]); tr.sit(out, "sa.signer_limit", "sa.s.add_rule_signers_over_limit", &c, r, qs(&t));
+        let (c, r) = t.add_rule(&(0, 0), 1, None, &sg_over[..2], &p_over); tr.sit(out, "sa.policy_limit", "sa.s.add_rule_policies_over_limit", &c, r, qs(&t));
+        let (c, r) = t.add_rule(&(0, 0), 1, None, &sg_over[..maxs], &p_over[..maxp]); tr.sit(out, "sa.signer_limit", "sa.s.add_rule_signers_and_policies_at_limit", &c, r, qs(&t));
+        let (c, r) = add_s(&t, 0, &d(maxs)); tr.sit(out, "sa.signer_limit", "sa.s.add_signer_over_limit", &c, r, qs(&t));
+        let (c, r) = add_p(&t, 0, maxp, true); tr.sit(out, "sa.policy_limit", "sa.s.add_policy_over_limit", &c, r, qs(&t));
+        advance(&t.e, 4_000_000); tr.advance(out, "sa", 4_000_000, "None", qs(&t));
+        let (c, r) = rem_s(&t, 0, &d(3)); tr.sit(out, "sa.remove_signer", "sa.s.remove_signer", &c, r, qs(&t));
+        let (c, r) = add_s(&t, 0, &d(maxs)); tr.sit(out, "sa.signer_limit", "sa.s.add_signer_reaches_limit", &c, r, qs(&t));
+        let (c, r) = add_s(&t, 0, &d(maxs + 1)); tr.sit(out, "sa.signer_limit", "sa.s.add_signer_over_limit", &c, r, qs(&t));
+        let (c, r) = rem_p(&t, 0, 1); tr.sit(out, "sa.remove_policy", "sa.s.remove_policy", &c, r, qs(&t));
+        let (c, r) = add_p(&t, 0, maxp, true); tr.sit(out, "sa.policy_limit", "sa.s.add_policy_reaches_limit", &c, r, qs(&t));
+        let (c, r) = add_p(&t, 0, maxp + 1, true); tr.sit(out, "sa.policy_limit", "sa.s.add_policy_over_limit", &c, r, qs(&t));
+        let n = tr.len(); out.trace("sa/directed-signer-policy-limits", format!("{} {}", header, list(&tr.ev)), n);
+    }
+}
+
 fn run_sa(out: &mut Out, rng: &mut Rng) {
     let maxr = sal::MAX_CONTEXT_RULES as u64;
     let maxs = sal::MAX_SIGNERS as u64;
@@ -1453,7 +2006,8 @@ fn run_sa(out: &mut Out, rng: &mut Rng) {
     let scale = out.cfg.scale as usize;
     let now0 = 100u32;
     let header = format!("TrSA {} {} {} {}", maxr, maxs, maxp, now0);
-    let na = if thorough { 600 } else { 70 } * scale;
+    directed_sa(out, &header);
+    let na = if directed_only() { 0 } else if thorough { 600 } else { 70 } * scale;
     for it in 0..na {
         let mode = it % 4; // 0,1: general; 2: rule-count limit; 3: signer / policy limits
         let naddr = if mode == 3 { (maxs + 3) as usize } else { 3 };
@@ -1568,6 +2122,21 @@ fn main() {
         ("binder", run_binder), ("docs", run_docs), ("cti", run_cti), ("keys", run_keys),
         ("irs", run_irs), ("compliance", run_compliance), ("claims", run_claims), ("sa", run_sa),
     ];
+    // the documented values of the limits (pinned tree; the same table as `limits_as_documented` in Run/C20.v): a
+    // changed constant is not a property violation - the traces are evaluated with the printed values - but it is
+    // made visible: label `limits.changed.<NAME>` instead of `limits.as_documented` (and class 9 in the verdicts)
+    let documented: std::vec::Vec<(&str, u64, u64)> = vec![
+        ("token_binder.BUCKET_SIZE", tbl::BUCKET_SIZE as u64, 100), ("token_binder.MAX_TOKENS", tbl::MAX_TOKENS as u64, 10_000),
+        ("doc_manager.BUCKET_SIZE", dml::BUCKET_SIZE as u64, 50), ("doc_manager.MAX_DOCUMENTS", dml::MAX_DOCUMENTS as u64, 5_000), ("doc_manager.MAX_URI_LEN", dml::MAX_URI_LEN as u64, 200),
+        ("MAX_CLAIM_TOPICS", ctim::MAX_CLAIM_TOPICS as u64, 15), ("MAX_ISSUERS", ctim::MAX_ISSUERS as u64, 50),
+        ("MAX_KEYS_PER_TOPIC", cil::MAX_KEYS_PER_TOPIC as u64, 50), ("MAX_REGISTRIES_PER_KEY", cil::MAX_REGISTRIES_PER_KEY as u64, 20),
+        ("MAX_COUNTRY_ENTRIES", irl::MAX_COUNTRY_ENTRIES as u64, 15), ("MAX_METADATA_ENTRIES", irl::MAX_METADATA_ENTRIES as u64, 10), ("MAX_METADATA_STRING_LEN", irl::MAX_METADATA_STRING_LEN as u64, 100),
+        ("MAX_MODULES", cmm::MAX_MODULES as u64, 20),
+        ("MAX_CONTEXT_RULES", sal::MAX_CONTEXT_RULES as u64, 15), ("MAX_SIGNERS", sal::MAX_SIGNERS as u64, 15), ("MAX_POLICIES", sal::MAX_POLICIES as u64, 5),
+    ];
+    let mut as_doc = true;
+    for (name, v, dv) in &documented { if v != dv { as_doc = false; out.label(&format!("limits.changed.{}={}", name, v)); eprintln!("c20: limit {} = {} (documented: {})", name, v, dv); } }
+    if as_doc { out.label("limits.as_documented"); }
     let only = std::env::var("C20_ONLY").ok();
     for (i, (name, f)) in sections.iter().enumerate() {
         let mut r = rng.fork(i as u64 + 1);
